@@ -1,5 +1,2149 @@
-use crate::Ctx;
+//! C16 - datafile and map readers are total; accepted files are fully traversable.
+//!
+//! Generator: an independent datafile writer (from doc/datafile.md) and map writer (from
+//! doc/map.md); hostile variants by exhaustive single-field corruption, truncation at every
+//! position, structural multi-field mutations, corrupt compressed blocks and random bytes.
+//! Oracle: totality (value or error, no panic, fuel on every iterator step) of everything the
+//! readers expose; exact read-back of items and data for well-formed files.
 
-pub fn run(_ctx: &Ctx) {
-    // not built yet
+use crate::{burn, ensure, ensure_eq, guard, pick, set_fuel, unlimited_fuel, Ctx, Outcome, PResult};
+use libtw2_datafile as df;
+use libtw2_map as map;
+use proptest::prelude::*;
+use serde::{Deserialize, Serialize};
+use serde_json::json;
+use std::collections::BTreeMap;
+use std::fs::File;
+use std::io::{Seek, SeekFrom, Write};
+use std::os::unix::io::{AsRawFd, FromRawFd};
+use std::sync::Mutex;
+
+/// Largest uncompressed size / header-implied slack the harness lets the reader allocate.
+const MAX_UNCOMP: i64 = 16 << 20;
+/// Largest uncompressed size the generators write into a hostile file (kept below the
+/// allocator's mmap threshold: the value only has to exceed the real size).
+const MAX_GEN_UNCOMP: i64 = 96 << 10;
+
+pub const K_UNALIGNED: &str = "unaligned-item-size";
+pub const K_START_OVERFLOW: &str = "type-start-overflow";
+
+// ---------------------------------------------------------------------------
+// Model of a datafile (doc/datafile.md "Terminology")
+
+#[derive(Clone, Debug, Hash, PartialEq, Eq, Serialize, Deserialize)]
+pub struct MItem {
+    pub type_id: u16,
+    pub id: u16,
+    pub data: Vec<i32>,
+    /// hostile only: extra bytes appended to the item data and declared in its size
+    pub pad: u8,
+}
+
+#[derive(Clone, Debug, Hash, PartialEq, Eq, Serialize, Deserialize)]
+pub struct MData {
+    pub bytes: Vec<u8>,
+    /// v4 only: 0 = one stored deflate block, 1 = stored blocks of `split`+1 bytes,
+    /// 2..=5 = libz compress2 with level 0/1/6/9
+    pub comp: u8,
+    pub split: u8,
+}
+
+#[derive(Clone, Debug, Hash, PartialEq, Eq, Serialize, Deserialize)]
+pub struct Model {
+    pub version: u8,
+    pub crude: bool,
+    pub reversed_magic: bool,
+    pub items: Vec<MItem>,
+    pub data: Vec<MData>,
+}
+
+impl Model {
+    /// Make the item list well-formed: grouped by ascending type, (type,id) unique, no padding.
+    pub fn normalized(&self) -> Model {
+        let mut seen = std::collections::BTreeSet::new();
+        let mut items: Vec<MItem> = Vec::new();
+        for it in &self.items {
+            if seen.insert((it.type_id, it.id)) {
+                let mut it = it.clone();
+                it.pad = 0;
+                items.push(it);
+            }
+        }
+        items.sort_by_key(|i| i.type_id); // stable: order within a type is kept
+        Model {
+            version: if self.version == 3 { 3 } else { 4 },
+            crude: self.crude && self.version != 3,
+            reversed_magic: self.reversed_magic,
+            items,
+            data: self.data.clone(),
+        }
+    }
+    /// Group by type (hostile models keep pads and duplicate ids).
+    pub fn grouped(&self) -> Model {
+        let mut m = self.clone();
+        m.version = if self.version == 3 { 3 } else { 4 };
+        m.items.sort_by_key(|i| i.type_id);
+        m
+    }
+}
+
+// ---------------------------------------------------------------------------
+// zlib streams, written independently of libz (stored blocks) and by libz itself
+
+pub fn adler32(b: &[u8]) -> u32 {
+    let (mut a, mut s) = (1u32, 0u32);
+    for &x in b {
+        a = (a + x as u32) % 65521;
+        s = (s + a) % 65521;
+    }
+    (s << 16) | a
+}
+
+pub fn zlib_stored(b: &[u8], block: usize) -> Vec<u8> {
+    let block = block.clamp(1, 65535);
+    let mut out = vec![0x78, 0x01];
+    let chunks: Vec<&[u8]> = if b.is_empty() { vec![&b[..]] } else { b.chunks(block).collect() };
+    let n = chunks.len();
+    for (i, c) in chunks.into_iter().enumerate() {
+        out.push(if i + 1 == n { 1 } else { 0 });
+        out.extend_from_slice(&(c.len() as u16).to_le_bytes());
+        out.extend_from_slice(&(!(c.len() as u16)).to_le_bytes());
+        out.extend_from_slice(c);
+    }
+    out.extend_from_slice(&adler32(b).to_be_bytes());
+    out
+}
+
+extern "C" {
+    fn compress2(
+        dest: *mut u8,
+        dest_len: *mut libc::c_ulong,
+        source: *const u8,
+        source_len: libc::c_ulong,
+        level: libc::c_int,
+    ) -> libc::c_int;
+    fn compressBound(source_len: libc::c_ulong) -> libc::c_ulong;
+}
+
+pub fn zlib_libz(b: &[u8], level: i32) -> Vec<u8> {
+    unsafe {
+        let mut len = compressBound(b.len() as libc::c_ulong);
+        let mut out = vec![0u8; len as usize];
+        let r = compress2(out.as_mut_ptr(), &mut len, b.as_ptr(), b.len() as libc::c_ulong, level);
+        assert!(r == 0, "harness: libz compress2 failed: {}", r);
+        out.truncate(len as usize);
+        out
+    }
+}
+
+pub fn compress_block(d: &MData) -> Vec<u8> {
+    match d.comp {
+        0 => zlib_stored(&d.bytes, 65535),
+        1 => zlib_stored(&d.bytes, d.split as usize + 1),
+        2 => zlib_libz(&d.bytes, 0),
+        3 => zlib_libz(&d.bytes, 1),
+        4 => zlib_libz(&d.bytes, 6),
+        _ => zlib_libz(&d.bytes, 9),
+    }
+}
+
+// ---------------------------------------------------------------------------
+// File image: the parts of doc/datafile.md "Format", individually addressable
+
+pub const H_VERSION: usize = 0;
+pub const H_SIZE: usize = 1;
+pub const H_SWAPLEN: usize = 2;
+pub const H_NTYPES: usize = 3;
+pub const H_NITEMS: usize = 4;
+pub const H_NDATA: usize = 5;
+pub const H_SIZE_ITEMS: usize = 6;
+pub const H_SIZE_DATA: usize = 7;
+
+#[derive(Clone, Debug)]
+pub struct Image {
+    pub magic: [u8; 4],
+    pub hdr: [i32; 8],
+    pub types: Vec<[i32; 3]>,
+    pub item_offsets: Vec<i32>,
+    pub data_offsets: Vec<i32>,
+    pub data_sizes: Option<Vec<i32>>,
+    pub items: Vec<u8>,
+    pub data: Vec<u8>,
+    /// byte position of every item header inside `items`
+    pub item_pos: Vec<usize>,
+    pub trailer: Vec<u8>,
+}
+
+fn implied_total(hdr: &[i32; 8]) -> i64 {
+    let nd = hdr[H_NDATA] as i64;
+    36 + 12 * hdr[H_NTYPES] as i64
+        + 4 * hdr[H_NITEMS] as i64
+        + 4 * nd
+        + if hdr[H_VERSION] >= 4 { 4 * nd } else { 0 }
+        + hdr[H_SIZE_ITEMS] as i64
+        + hdr[H_SIZE_DATA] as i64
+}
+
+impl Image {
+    /// Lay the model out as a file. `blocks` are the stored forms of the data items.
+    pub fn build(m: &Model, blocks: &[Vec<u8>]) -> Image {
+        let mut types: Vec<[i32; 3]> = Vec::new();
+        let mut item_offsets = Vec::new();
+        let mut items: Vec<u8> = Vec::new();
+        let mut item_pos = Vec::new();
+        for (i, it) in m.items.iter().enumerate() {
+            match types.last_mut() {
+                Some(t) if t[0] == it.type_id as i32 => t[2] += 1,
+                _ => types.push([it.type_id as i32, i as i32, 1]),
+            }
+            item_offsets.push(items.len() as i32);
+            item_pos.push(items.len());
+            let tid = ((it.type_id as u32) << 16) | it.id as u32;
+            items.extend_from_slice(&tid.to_le_bytes());
+            items.extend_from_slice(&((it.data.len() * 4 + it.pad as usize) as i32).to_le_bytes());
+            for w in &it.data {
+                items.extend_from_slice(&w.to_le_bytes());
+            }
+            for k in 0..it.pad {
+                items.push(0xE0 | k);
+            }
+        }
+        let mut data = Vec::new();
+        let mut data_offsets = Vec::new();
+        for b in blocks {
+            data_offsets.push(data.len() as i32);
+            data.extend_from_slice(b);
+        }
+        let data_sizes = if m.version >= 4 {
+            Some(m.data.iter().map(|d| d.bytes.len() as i32).collect())
+        } else {
+            None
+        };
+        let mut img = Image {
+            magic: if m.reversed_magic { *b"ATAD" } else { *b"DATA" },
+            hdr: [m.version as i32, 0, 0, 0, 0, 0, 0, 0],
+            types,
+            item_offsets,
+            data_offsets,
+            data_sizes,
+            items,
+            data,
+            item_pos,
+            trailer: Vec::new(),
+        };
+        img.fix_all(m.crude);
+        img
+    }
+    /// size and swaplen as doc/datafile.md defines them, from the header's own counts.
+    pub fn fix_size_fields(&mut self, crude: bool) -> i64 {
+        let total = implied_total(&self.hdr);
+        let mut size = total - 16;
+        if crude {
+            // the historic miscalculation: the data sizes table is not counted
+            size -= 4 * self.hdr[H_NDATA] as i64;
+        }
+        let swaplen = size - self.hdr[H_SIZE_DATA] as i64;
+        self.hdr[H_SIZE] = size.clamp(i32::MIN as i64, i32::MAX as i64) as i32;
+        self.hdr[H_SWAPLEN] = swaplen.clamp(i32::MIN as i64, i32::MAX as i64) as i32;
+        total
+    }
+    /// counts and sizes from the actual parts, then size/swaplen.
+    pub fn fix_all(&mut self, crude: bool) -> i64 {
+        self.hdr[H_NTYPES] = self.types.len() as i32;
+        self.hdr[H_NITEMS] = self.item_offsets.len() as i32;
+        self.hdr[H_NDATA] = self.data_offsets.len() as i32;
+        self.hdr[H_SIZE_ITEMS] = self.items.len() as i32;
+        self.hdr[H_SIZE_DATA] = self.data.len() as i32;
+        self.fix_size_fields(crude)
+    }
+    pub fn bytes(&self) -> Vec<u8> {
+        let mut out = Vec::with_capacity(64 + self.items.len() + self.data.len());
+        out.extend_from_slice(&self.magic);
+        for w in &self.hdr {
+            out.extend_from_slice(&w.to_le_bytes());
+        }
+        for t in &self.types {
+            for w in t {
+                out.extend_from_slice(&w.to_le_bytes());
+            }
+        }
+        for w in self.item_offsets.iter().chain(self.data_offsets.iter()) {
+            out.extend_from_slice(&w.to_le_bytes());
+        }
+        if let Some(s) = &self.data_sizes {
+            for w in s {
+                out.extend_from_slice(&w.to_le_bytes());
+            }
+        }
+        out.extend_from_slice(&self.items);
+        out.extend_from_slice(&self.data);
+        out.extend_from_slice(&self.trailer);
+        out
+    }
+    fn item_word(&self, i: usize, c: usize) -> i32 {
+        let p = self.item_pos[i] + 4 * c;
+        i32::from_le_bytes(self.items[p..p + 4].try_into().unwrap())
+    }
+    fn set_item_word(&mut self, i: usize, c: usize, v: i32) {
+        let p = self.item_pos[i] + 4 * c;
+        self.items[p..p + 4].copy_from_slice(&v.to_le_bytes());
+    }
+    pub fn get(&self, f: Field) -> i32 {
+        match f {
+            Field::Hdr(k) => self.hdr[k],
+            Field::Type(i, c) => self.types[i][c],
+            Field::ItemOff(i) => self.item_offsets[i],
+            Field::DataOff(i) => self.data_offsets[i],
+            Field::DataSize(i) => self.data_sizes.as_ref().unwrap()[i],
+            Field::ItemHdr(i, c) => self.item_word(i, c),
+        }
+    }
+    pub fn set(&mut self, f: Field, v: i32) {
+        match f {
+            Field::Hdr(k) => self.hdr[k] = v,
+            Field::Type(i, c) => self.types[i][c] = v,
+            Field::ItemOff(i) => self.item_offsets[i] = v,
+            Field::DataOff(i) => self.data_offsets[i] = v,
+            Field::DataSize(i) => self.data_sizes.as_mut().unwrap()[i] = v,
+            Field::ItemHdr(i, c) => self.set_item_word(i, c, v),
+        }
+    }
+    pub fn fields(&self) -> Vec<Field> {
+        let mut f: Vec<Field> = (0..8).map(Field::Hdr).collect();
+        for i in 0..self.types.len() {
+            for c in 0..3 {
+                f.push(Field::Type(i, c));
+            }
+        }
+        f.extend((0..self.item_offsets.len()).map(Field::ItemOff));
+        f.extend((0..self.data_offsets.len()).map(Field::DataOff));
+        if let Some(s) = &self.data_sizes {
+            f.extend((0..s.len()).map(Field::DataSize));
+        }
+        for i in 0..self.item_pos.len() {
+            f.push(Field::ItemHdr(i, 0));
+            f.push(Field::ItemHdr(i, 1));
+        }
+        f
+    }
+    /// Lengths and counts a corrupted field could be confused with.
+    pub fn extents(&self) -> Vec<i64> {
+        let mut e = vec![
+            self.types.len() as i64,
+            self.item_offsets.len() as i64,
+            self.data_offsets.len() as i64,
+            self.items.len() as i64,
+            self.data.len() as i64,
+            self.items.len() as i64 - 8,
+            self.bytes().len() as i64,
+        ];
+        e.sort();
+        e.dedup();
+        e
+    }
+}
+
+#[derive(Clone, Copy, Debug, PartialEq, Eq)]
+pub enum Field {
+    Hdr(usize),
+    Type(usize, usize),
+    ItemOff(usize),
+    DataOff(usize),
+    DataSize(usize),
+    ItemHdr(usize, usize),
+}
+
+pub fn write_model(m: &Model) -> Vec<u8> {
+    let blocks: Vec<Vec<u8>> = m
+        .data
+        .iter()
+        .map(|d| if m.version >= 4 { compress_block(d) } else { d.bytes.clone() })
+        .collect();
+    Image::build(m, &blocks).bytes()
+}
+
+fn blocks_of(m: &Model) -> Vec<Vec<u8>> {
+    m.data
+        .iter()
+        .map(|d| if m.version >= 4 { compress_block(d) } else { d.bytes.clone() })
+        .collect()
+}
+
+// ---------------------------------------------------------------------------
+// Independent pre-parse: resource bounds and known-defect input classes
+
+pub struct Pre {
+    pub version: i32,
+    pub hdr: [i32; 8],
+    pub total: i64,
+    /// uncompressed sizes as the reader will see them (v4, table inside the file)
+    pub sizes: Option<Vec<i32>>,
+}
+
+fn word_at(b: &[u8], pos: i64) -> Option<i32> {
+    if pos < 0 || pos as usize + 4 > b.len() {
+        return None;
+    }
+    let p = pos as usize;
+    Some(i32::from_le_bytes(b[p..p + 4].try_into().unwrap()))
+}
+
+/// None: the header is short, of another version or has a negative field (the reader refuses it
+/// before it allocates anything that depends on the header).
+pub fn preparse(b: &[u8]) -> Option<Pre> {
+    if b.len() < 36 {
+        return None;
+    }
+    let mut hdr = [0i32; 8];
+    for k in 0..8 {
+        hdr[k] = word_at(b, 4 + 4 * k as i64)?;
+    }
+    if hdr[H_VERSION] != 3 && hdr[H_VERSION] != 4 {
+        return None;
+    }
+    if hdr[1..].iter().any(|&v| v < 0) {
+        return None;
+    }
+    let total = implied_total(&hdr);
+    let sizes = if hdr[H_VERSION] == 4 {
+        let base = 36 + 12 * hdr[H_NTYPES] as i64 + 4 * hdr[H_NITEMS] as i64 + 4 * hdr[H_NDATA] as i64;
+        let mut v = Vec::new();
+        if total <= b.len() as i64 + MAX_UNCOMP {
+            for i in 0..hdr[H_NDATA] as i64 {
+                match word_at(b, base + 4 * i) {
+                    Some(w) => v.push(w),
+                    None => break,
+                }
+            }
+        }
+        Some(v)
+    } else {
+        None
+    };
+    Some(Pre { version: hdr[H_VERSION], hdr, total, sizes })
+}
+
+/// Does the file belong to one of the two known-defect input classes? (Over-approximates
+/// slightly: the type-table checks that precede the item walk are not simulated.)
+pub fn known_class(b: &[u8]) -> Option<&'static str> {
+    let pre = preparse(b)?;
+    let h = &pre.hdr;
+    if pre.total > b.len() as i64 {
+        return None; // refused as too short before check()
+    }
+    let (nt, ni, si) = (h[H_NTYPES] as i64, h[H_NITEMS] as i64, h[H_SIZE_ITEMS] as i64);
+    if si % 4 != 0 {
+        return None;
+    }
+    for t in 0..nt {
+        let start = word_at(b, 36 + 12 * t + 4)? as i64;
+        let num = word_at(b, 36 + 12 * t + 8)? as i64;
+        if num >= 0 && ni - start > i32::MAX as i64 {
+            return Some(K_START_OVERFLOW);
+        }
+    }
+    let offs = 36 + 12 * nt;
+    let items = offs + 4 * ni + 4 * h[H_NDATA] as i64 * if pre.version == 4 { 2 } else { 1 };
+    let mut offset = 0i64;
+    for i in 0..ni {
+        let o = word_at(b, offs + 4 * i)? as i64;
+        if o < 0 || o != offset {
+            return None;
+        }
+        offset += 8;
+        if offset > si {
+            return None;
+        }
+        if o % 4 != 0 {
+            return Some(K_UNALIGNED);
+        }
+        let size = word_at(b, items + o + 4)? as i64;
+        if size < 0 {
+            return None;
+        }
+        offset += size;
+        if offset > si {
+            return None;
+        }
+    }
+    None
+}
+
+// ---------------------------------------------------------------------------
+// Opening: the reader only takes a `File`; use an anonymous in-memory file (memfd), the same
+// through /proc/self/fd (for `Reader::open`) or a real file under /dev/shm that is unlinked
+// as soon as it has been opened.
+
+fn inconclusive(msg: String) -> ! {
+    println!("INCONCLUSIVE: C16 harness I/O: {}", msg);
+    std::process::exit(2);
+}
+
+fn memfile(bytes: &[u8]) -> File {
+    let fd = unsafe { libc::memfd_create(b"vh-c16\0".as_ptr() as *const libc::c_char, libc::MFD_CLOEXEC) };
+    if fd < 0 {
+        inconclusive(format!("memfd_create: {}", std::io::Error::last_os_error()));
+    }
+    let mut f = unsafe { File::from_raw_fd(fd) };
+    if let Err(e) = f.write_all(bytes).and_then(|()| f.seek(SeekFrom::Start(0)).map(|_| ())) {
+        inconclusive(format!("memfd write: {}", e));
+    }
+    f
+}
+
+fn shm_dir() -> String {
+    format!("/dev/shm/vh-c16-{}", std::process::id())
+}
+
+fn shm_cleanup() {
+    let _ = std::fs::remove_dir_all(shm_dir());
+}
+
+/// 0: `Reader::new(memfd)`, 1: `Reader::open("/proc/self/fd/N")`, 2: `Reader::open("/dev/shm/..")`
+pub fn open_df(bytes: &[u8], mode: u8) -> Result<df::Reader, df::Error> {
+    match mode {
+        1 => {
+            let f = memfile(bytes);
+            let path = format!("/proc/self/fd/{}", f.as_raw_fd());
+            if !std::path::Path::new(&path).exists() {
+                return df::Reader::new(f);
+            }
+            let r = df::Reader::open(&path);
+            drop(f);
+            r
+        }
+        2 => {
+            let dir = shm_dir();
+            if let Err(e) = std::fs::create_dir_all(&dir) {
+                inconclusive(format!("mkdir {}: {}", dir, e));
+            }
+            let path = format!("{}/{:?}.map", dir, std::thread::current().id());
+            if let Err(e) = std::fs::write(&path, bytes) {
+                inconclusive(format!("write {}: {}", path, e));
+            }
+            let r = guard(|| df::Reader::open(&path));
+            let _ = std::fs::remove_file(&path);
+            match r {
+                Ok(r) => r,
+                Err(p) => panic!("Reader::open panicked: {}", p),
+            }
+        }
+        _ => df::Reader::new(memfile(bytes)),
+    }
+}
+
+// ---------------------------------------------------------------------------
+// Traversal: everything the readers expose
+
+type Tally = BTreeMap<String, u64>;
+
+fn bump(t: &mut Tally, k: &str) {
+    *t.entry(k.to_string()).or_insert(0) += 1;
+}
+
+static TALLY: Mutex<BTreeMap<String, u64>> = Mutex::new(BTreeMap::new());
+
+fn merge_tally(t: Tally) {
+    let mut g = TALLY.lock().unwrap();
+    for (k, v) in t {
+        *g.entry(k).or_insert(0) += v;
+    }
+}
+
+fn err_key(e: &df::Error) -> String {
+    match e {
+        df::Error::Io(_) => "Io".to_string(),
+        df::Error::Df(d) => {
+            let s = format!("{:?}", d);
+            s.split('(').next().unwrap_or("").to_string()
+        }
+    }
+}
+
+#[derive(Debug, Default, PartialEq)]
+pub struct DfDump {
+    pub version: Option<df::Version>,
+    pub types: Vec<u16>,
+    pub items: Vec<(u16, u16, Vec<i32>)>,
+    pub data: Vec<Option<Vec<u8>>>,
+}
+
+fn view(v: df::ItemView) -> (u16, u16, Vec<i32>) {
+    (v.type_id, v.id, v.data.to_vec())
+}
+
+fn data_allowed(pre: &Option<Pre>, i: usize) -> bool {
+    match pre {
+        Some(Pre { sizes: Some(s), .. }) => s.get(i).map(|&v| (v as i64) <= MAX_UNCOMP).unwrap_or(false),
+        _ => true,
+    }
+}
+
+/// Calls every accessor of the datafile reader with every index it admits. Panics propagate to
+/// the caller's guard; fuel is burnt on every step.
+pub fn traverse_df(r: &mut df::Reader, pre: &Option<Pre>, t: &mut Tally) -> DfDump {
+    let mut d = DfDump::default();
+    d.version = Some(r.version());
+    let (nt, ni, nd) = (r.num_item_types(), r.num_items(), r.num_data());
+    for ty in r.item_types() {
+        burn();
+        d.types.push(ty);
+    }
+    for i in 0..nt {
+        burn();
+        let _ = r.item_type(i);
+    }
+    for it in r.items() {
+        burn();
+        d.items.push(view(it));
+    }
+    for i in 0..ni {
+        burn();
+        let _ = r.item(i).data.iter().fold(0i32, |a, &b| a ^ b);
+    }
+    let mut probe_types: Vec<u16> = d.types.clone();
+    for &ty in &d.types {
+        probe_types.push(ty.wrapping_add(1));
+    }
+    probe_types.extend_from_slice(&[0, 1, 5, 0x7fff, 0x8000, 0xffff]);
+    probe_types.sort();
+    probe_types.dedup();
+    for &ty in &probe_types {
+        burn();
+        let range = r.item_type_indices(ty);
+        let mut n = 0;
+        for it in r.item_type_items(ty) {
+            burn();
+            let _ = it.data.len();
+            n += 1;
+        }
+        let _ = (range, n);
+        let _ = r.find_item(ty, 0);
+        let _ = r.find_item(ty, 0xffff);
+    }
+    for i in 0..d.items.len().min(64) {
+        burn();
+        let (ty, id) = (d.items[i].0, d.items[i].1);
+        let _ = r.find_item(ty, id);
+        let _ = r.find_item(ty, id.wrapping_add(1));
+    }
+    let mut all_allowed = true;
+    for i in 0..nd {
+        burn();
+        if !data_allowed(pre, i) {
+            all_allowed = false;
+            bump(t, "data:skipped_over_16MiB");
+            d.data.push(None);
+            continue;
+        }
+        match r.read_data(i) {
+            Ok(v) => {
+                bump(t, "data:ok");
+                d.data.push(Some(v));
+            }
+            Err(e) => {
+                bump(t, &format!("data:{}", err_key(&e)));
+                d.data.push(None);
+            }
+        }
+    }
+    if all_allowed {
+        for x in r.data_iter() {
+            burn();
+            let _ = x.map(|v| v.len());
+        }
+    }
+    let _ = r.debug_dump();
+    d
+}
+
+fn tilemap_of(width: u32, height: u32) -> map::reader::LayerTilemap {
+    map::reader::LayerTilemap {
+        width,
+        height,
+        type_: map::reader::LayerTilemapType::Game(0),
+        name: [0; 12],
+    }
+}
+
+fn all_tiles(m: &mut map::Reader, tm: &map::reader::LayerTilemap, d: usize, pre: &Option<Pre>, t: &mut Tally) {
+    if !data_allowed(pre, d) {
+        return;
+    }
+    burn();
+    let k = |r: bool| if r { "tiles:ok" } else { "tiles:err" };
+    bump(t, k(m.layer_tiles(tm.tiles(d)).map(|a| a.len()).is_ok()));
+    bump(t, k(m.tele_layer_tiles(tm.tiles(d)).map(|a| a.len()).is_ok()));
+    bump(t, k(m.speedup_layer_tiles(tm.tiles(d)).map(|a| a.len()).is_ok()));
+    bump(t, k(m.switch_layer_tiles(tm.tiles(d)).map(|a| a.len()).is_ok()));
+    bump(t, k(m.tune_layer_tiles(tm.tiles(d)).map(|a| a.len()).is_ok()));
+}
+
+fn settings_walk(m: &mut map::Reader, d: usize, t: &mut Tally) {
+    match m.settings(d) {
+        Ok(s) => {
+            bump(t, "settings:ok");
+            for line in s.iter() {
+                burn();
+                let _ = line.len();
+            }
+        }
+        Err(_) => bump(t, "settings:err"),
+    }
+}
+
+/// Calls every accessor of the map reader. `full`: additionally every data-index accessor on
+/// every data index (otherwise only on the indices the items hand out).
+pub fn traverse_map(r: df::Reader, pre: &Option<Pre>, full: bool, t: &mut Tally) -> map::Reader {
+    use map::reader::{LayerTilemapType as T, LayerType};
+    let mut m = map::Reader::from_datafile(r);
+    let nd = m.reader.num_data();
+    let _ = m.version();
+    let _ = m.check_version();
+    match m.info() {
+        Ok(info) => {
+            bump(t, "info:ok");
+            for idx in [info.author, info.version, info.credits, info.license].into_iter().flatten() {
+                if data_allowed(pre, idx) {
+                    let _ = m.string(idx);
+                }
+            }
+            if let Some(s) = info.settings {
+                if data_allowed(pre, s) {
+                    settings_walk(&mut m, s, t);
+                }
+            }
+        }
+        Err(_) => bump(t, "info:err"),
+    }
+    for i in m.reader.item_type_indices(map::format::MAP_ITEMTYPE_IMAGE) {
+        burn();
+        match m.image(i) {
+            Ok(img) => {
+                bump(t, "image:ok");
+                if data_allowed(pre, img.name) {
+                    let _ = m.image_name(img.name);
+                }
+                if let Some(d) = img.data {
+                    if data_allowed(pre, d) {
+                        let _ = m.image_data(d);
+                    }
+                }
+            }
+            Err(_) => bump(t, "image:err"),
+        }
+    }
+    for g in m.group_indices() {
+        burn();
+        let group = match m.group(g) {
+            Ok(group) => group,
+            Err(_) => {
+                bump(t, "group:err");
+                continue;
+            }
+        };
+        bump(t, "group:ok");
+        for l in group.layer_indices.clone() {
+            burn();
+            let layer = match m.layer(l) {
+                Ok(layer) => layer,
+                Err(_) => {
+                    bump(t, "layer:err");
+                    continue;
+                }
+            };
+            bump(t, "layer:ok");
+            match layer.t {
+                LayerType::Quads(q) => {
+                    if data_allowed(pre, q.data) {
+                        let _ = m.reader.read_data(q.data);
+                    }
+                }
+                LayerType::DdraceSounds(s) => {
+                    if data_allowed(pre, s.data) {
+                        let _ = m.reader.read_data(s.data);
+                    }
+                }
+                LayerType::Tilemap(tm) => {
+                    let _ = tm.type_.to_normal().map(|n| n.data);
+                    if let Some(d) = tm.type_.tiles() {
+                        if data_allowed(pre, d) {
+                            let _ = m.layer_tiles(tm.tiles(d)).map(|a| a.len());
+                        }
+                    }
+                    let (d, z) = match tm.type_ {
+                        T::Normal(n) => (n.data, n.data),
+                        T::Game(d) => (d, d),
+                        T::RaceTeleport(d, z)
+                        | T::RaceSpeedup(d, z)
+                        | T::DdraceFront(d, z)
+                        | T::DdraceSwitch(d, z)
+                        | T::DdraceTune(d, z) => (d, z),
+                    };
+                    for x in [d, z] {
+                        if !data_allowed(pre, x) {
+                            continue;
+                        }
+                        let _ = match tm.type_ {
+                            T::RaceTeleport(..) => m.tele_layer_tiles(tm.tiles(x)).map(|a| a.len()),
+                            T::RaceSpeedup(..) => m.speedup_layer_tiles(tm.tiles(x)).map(|a| a.len()),
+                            T::DdraceSwitch(..) => m.switch_layer_tiles(tm.tiles(x)).map(|a| a.len()),
+                            T::DdraceTune(..) => m.tune_layer_tiles(tm.tiles(x)).map(|a| a.len()),
+                            _ => m.layer_tiles(tm.tiles(x)).map(|a| a.len()),
+                        };
+                    }
+                }
+            }
+        }
+    }
+    match m.game_layers() {
+        Ok(gl) => {
+            bump(t, "game_layers:ok");
+            if data_allowed(pre, gl.game_raw) {
+                let _ = m.layer_tiles(gl.game()).map(|a| a.len());
+            }
+            if let Some(i) = gl.teleport() {
+                if data_allowed(pre, gl.teleport_raw.unwrap()) {
+                    let _ = m.tele_layer_tiles(i).map(|a| a.len());
+                }
+            }
+            if let Some(i) = gl.speedup() {
+                if data_allowed(pre, gl.speedup_raw.unwrap()) {
+                    let _ = m.speedup_layer_tiles(i).map(|a| a.len());
+                }
+            }
+            if let Some(i) = gl.front() {
+                if data_allowed(pre, gl.front_raw.unwrap()) {
+                    let _ = m.layer_tiles(i).map(|a| a.len());
+                }
+            }
+            if let Some(i) = gl.switch() {
+                if data_allowed(pre, gl.switch_raw.unwrap()) {
+                    let _ = m.switch_layer_tiles(i).map(|a| a.len());
+                }
+            }
+            if let Some(i) = gl.tune() {
+                if data_allowed(pre, gl.tune_raw.unwrap()) {
+                    let _ = m.tune_layer_tiles(i).map(|a| a.len());
+                }
+            }
+        }
+        Err(e) => bump(t, &format!("game_layers:{}", format!("{:?}", e).split('(').next().unwrap_or(""))),
+    }
+    if full {
+        for d in 0..nd {
+            burn();
+            if !data_allowed(pre, d) {
+                continue;
+            }
+            let _ = m.image_name(d);
+            let _ = m.image_data(d);
+            bump(t, if m.string(d).is_ok() { "string:ok" } else { "string:err" });
+            settings_walk(&mut m, d, t);
+            let _ = m.layer_tiles_raw(d).map(|v| v.len());
+            let _ = m.tele_layer_tiles_raw(d).map(|v| v.len());
+            let _ = m.speedup_layer_tiles_raw(d).map(|v| v.len());
+            let _ = m.switch_layer_tiles_raw(d).map(|v| v.len());
+            let _ = m.tune_layer_tiles_raw(d).map(|v| v.len());
+            for (w, h) in [(1u32, 1u32), (2, 3), (1, i32::MAX as u32), (i32::MAX as u32, i32::MAX as u32)] {
+                all_tiles(&mut m, &tilemap_of(w, h), d, pre, t);
+            }
+        }
+    }
+    m
+}
+
+#[derive(Clone, Copy, PartialEq, Eq, Debug)]
+pub enum Verdict {
+    Accepted,
+    Rejected,
+    SkippedResource,
+    SkippedKnown,
+}
+
+#[derive(Clone, Copy)]
+pub struct Known {
+    pub unaligned: bool,
+    pub start_overflow: bool,
+}
+
+impl Known {
+    pub const NONE: Known = Known { unaligned: false, start_overflow: false };
+    fn from(ctx: &Ctx) -> Known {
+        Known {
+            unaligned: ctx.known_open(K_UNALIGNED),
+            start_overflow: ctx.known_open(K_START_OVERFLOW),
+        }
+    }
+    fn skips(&self, b: &[u8]) -> bool {
+        if !self.unaligned && !self.start_overflow {
+            return false;
+        }
+        match known_class(b) {
+            Some(K_UNALIGNED) => self.unaligned,
+            Some(K_START_OVERFLOW) => self.start_overflow,
+            _ => false,
+        }
+    }
+}
+
+/// The totality oracle for one file: open it as a datafile and as a map and call everything.
+/// Err = a panic or a call that did not come back within its fuel.
+pub fn check_total(bytes: &[u8], mode: u8, as_map: u8, known: Known, t: &mut Tally) -> Result<Verdict, String> {
+    let pre = preparse(bytes);
+    if let Some(p) = &pre {
+        if p.total > bytes.len() as i64 + MAX_UNCOMP {
+            bump(t, "open:skipped_resource_bound");
+            return Ok(Verdict::SkippedResource);
+        }
+    }
+    if known.skips(bytes) {
+        bump(t, "open:skipped_known_finding");
+        return Ok(Verdict::SkippedKnown);
+    }
+    set_fuel(2_000_000);
+    let r = guard(|| -> Verdict {
+        let mut r = match open_df(bytes, mode) {
+            Ok(r) => r,
+            Err(e) => {
+                bump(t, &format!("open:{}", err_key(&e)));
+                return Verdict::Rejected;
+            }
+        };
+        bump(t, "open:accepted");
+        let _ = traverse_df(&mut r, &pre, t);
+        if as_map > 0 {
+            let _ = traverse_map(r, &pre, as_map > 1, t);
+        }
+        Verdict::Accepted
+    });
+    unlimited_fuel();
+    r.map_err(|p| p.to_string())
+}
+
+/// Totality oracle for the fuzz target: any byte string, opened as datafile and as map.
+pub fn check_bytes(data: &[u8]) -> Result<(), String> {
+    check_bytes_opts(data, false)
+}
+
+/// `skip_known`: do not open files of the two known-defect input classes (campaign allow-list).
+pub fn check_bytes_opts(data: &[u8], skip_known: bool) -> Result<(), String> {
+    crate::install_panic_hook();
+    let mut t = Tally::new();
+    let known = Known { unaligned: skip_known, start_overflow: skip_known };
+    check_total(data, 0, 2, known, &mut t).map(|_| ())
+}
+
+// ---------------------------------------------------------------------------
+// Generators
+
+fn word() -> BoxedStrategy<i32> {
+    prop_oneof![
+        5 => -3i32..20,
+        2 => any::<i32>(),
+        1 => prop_oneof![Just(i32::MIN), Just(i32::MAX), Just(-1), Just(0x10000), Just(0xffff), Just(1 << 24)],
+    ]
+    .boxed()
+}
+
+fn type_id() -> BoxedStrategy<u16> {
+    prop_oneof![5 => 0u16..8, 2 => any::<u16>(), 1 => Just(0xffffu16), 1 => Just(0x8000u16)].boxed()
+}
+
+fn item(max_words: usize, hostile: bool) -> BoxedStrategy<MItem> {
+    let pad = if hostile {
+        prop_oneof![12 => Just(0u8), 2 => Just(4u8), 1 => Just(1u8), 2 => Just(2u8), 1 => Just(3u8), 1 => Just(6u8)].boxed()
+    } else {
+        Just(0u8).boxed()
+    };
+    (
+        type_id(),
+        prop_oneof![4 => 0u16..6, 1 => any::<u16>()],
+        prop_oneof![4 => proptest::collection::vec(word(), 0..=max_words.min(4)), 1 => proptest::collection::vec(word(), 0..=max_words)],
+        pad,
+    )
+        .prop_map(|(type_id, id, data, pad)| MItem { type_id, id, data, pad })
+        .boxed()
+}
+
+fn data_bytes(max: usize) -> BoxedStrategy<Vec<u8>> {
+    prop_oneof![
+        3 => proptest::collection::vec(any::<u8>(), 0..=max.min(24)),
+        2 => (any::<u8>(), 0..=max * 4).prop_map(|(b, n)| vec![b; n]),
+        1 => Just(Vec::new()),
+        2 => proptest::collection::vec(any::<u8>(), 0..=max),
+        1 => proptest::collection::vec(0u8..3, 0..=max * 2),
+    ]
+    .boxed()
+}
+
+fn mdata(max: usize) -> BoxedStrategy<MData> {
+    (data_bytes(max), 0u8..6, any::<u8>())
+        .prop_map(|(bytes, comp, split)| MData { bytes, comp, split })
+        .boxed()
+}
+
+fn model(max_items: usize, max_words: usize, max_data: usize, max_bytes: usize, hostile: bool) -> BoxedStrategy<Model> {
+    (
+        prop_oneof![Just(3u8), Just(4u8)],
+        proptest::bool::weighted(0.3),
+        proptest::bool::weighted(0.1),
+        proptest::collection::vec(item(max_words, hostile), 0..=max_items),
+        proptest::collection::vec(mdata(max_bytes), 0..=max_data),
+    )
+        .prop_map(|(version, crude, reversed_magic, items, data)| Model { version, crude, reversed_magic, items, data })
+        .boxed()
+}
+
+// ---------------------------------------------------------------------------
+// Section df_wellformed: exact read-back
+
+#[derive(Clone, Debug, Hash, Serialize, Deserialize)]
+pub struct WellCase {
+    pub model: Model,
+    pub open_mode: u8,
+}
+
+fn check_wellformed(c: &WellCase) -> PResult {
+    let m = c.model.normalized();
+    let bytes = write_model(&m);
+    let pre = preparse(&bytes);
+    ensure!(pre.is_some(), "harness: own pre-parser refuses the file written by the harness");
+    let mut t = Tally::new();
+    set_fuel(2_000_000);
+    let mut r = match guard(|| open_df(&bytes, c.open_mode)).map_err(|p| format!("open: {}", p))? {
+        Ok(r) => r,
+        Err(e) => return Err(format!("well-formed version {} file ({} bytes) refused: {:?}", m.version, bytes.len(), e)),
+    };
+    let d = guard(|| traverse_df(&mut r, &pre, &mut t)).map_err(|p| format!("traversal: {}", p))?;
+    unlimited_fuel();
+    match (m.version, d.version) {
+        (3, Some(df::Version::V3)) | (4, Some(df::Version::V4)) | (4, Some(df::Version::V4Crude)) => {}
+        (v, got) => return Err(format!("file of version {} reported as {:?}", v, got)),
+    }
+    let want_items: Vec<(u16, u16, Vec<i32>)> = m.items.iter().map(|i| (i.type_id, i.id, i.data.clone())).collect();
+    let mut want_types: Vec<u16> = m.items.iter().map(|i| i.type_id).collect();
+    want_types.dedup();
+    ensure_eq!(d.types, want_types, "item_types()");
+    ensure_eq!(r.num_item_types(), want_types.len(), "num_item_types()");
+    ensure_eq!(r.num_items(), want_items.len(), "num_items()");
+    ensure_eq!(d.items, want_items, "items()");
+    for (i, w) in want_items.iter().enumerate() {
+        ensure_eq!(&view(r.item(i)), w, "item({})", i);
+    }
+    for (k, &ty) in want_types.iter().enumerate() {
+        ensure_eq!(r.item_type(k), ty, "item_type({})", k);
+        let want: Vec<_> = want_items.iter().filter(|i| i.0 == ty).cloned().collect();
+        let got: Vec<_> = r.item_type_items(ty).map(view).collect();
+        ensure_eq!(got, want, "item_type_items({})", ty);
+        let range = r.item_type_indices(ty);
+        let first = want_items.iter().position(|i| i.0 == ty).unwrap();
+        ensure_eq!(range, first..first + want.len(), "item_type_indices({})", ty);
+    }
+    for ty in [0u16, 1, 2, 9, 0x7fff, 0xfffe, 0xffff] {
+        if !want_types.contains(&ty) {
+            ensure!(r.item_type_indices(ty).len() == 0, "item_type_indices({}) of an absent type is not empty", ty);
+            ensure!(r.item_type_items(ty).next().is_none(), "item_type_items({}) of an absent type yields an item", ty);
+            ensure!(r.find_item(ty, 0).is_none(), "find_item({}, 0) of an absent type finds something", ty);
+        }
+    }
+    for w in &want_items {
+        ensure_eq!(r.find_item(w.0, w.1).map(view), Some(w.clone()), "find_item({}, {})", w.0, w.1);
+        let absent = w.1.wrapping_add(1);
+        if !want_items.iter().any(|i| i.0 == w.0 && i.1 == absent) {
+            ensure!(r.find_item(w.0, absent).is_none(), "find_item({}, {}) finds an item that was not stored", w.0, absent);
+        }
+    }
+    ensure_eq!(r.num_data(), m.data.len(), "num_data()");
+    for (i, want) in m.data.iter().enumerate() {
+        match &d.data[i] {
+            Some(got) => ensure_eq!(got, &want.bytes, "read_data({}) (comp {})", i, want.comp),
+            None => return Err(format!("read_data({}) failed on a well-formed file: {:?}", i, r.read_data(i).err())),
+        }
+        // a second read gives the same
+        ensure_eq!(r.read_data(i).ok(), Some(want.bytes.clone()), "second read_data({})", i);
+    }
+    let all: Vec<Option<Vec<u8>>> = r.data_iter().map(|x| x.ok()).collect();
+    ensure_eq!(all, m.data.iter().map(|x| Some(x.bytes.clone())).collect::<Vec<_>>(), "data_iter()");
+    let compressed = m.version == 4 && m.data.iter().any(|x| !x.bytes.is_empty());
+    let nt = want_types.len() >= 2 && m.data.iter().any(|x| !x.bytes.is_empty());
+    merge_tally(t);
+    Ok(Outcome::nt(nt)
+        .class_if(m.version == 3, "v3")
+        .class_if(m.version == 4 && !m.crude, "v4")
+        .class_if(m.version == 4 && m.crude, "v4_crude_size")
+        .class_if(d.version == Some(df::Version::V4Crude), "reported_V4Crude")
+        .class_if(m.reversed_magic, "reversed_magic")
+        .class_if(compressed, "compressed_block")
+        .class_if(m.data.iter().any(|x| x.bytes.is_empty()), "empty_data_block")
+        .class_if(m.version == 4 && m.data.iter().any(|x| x.comp >= 3 && x.bytes.len() > 50), "libz_deflated_block")
+        .class_if(m.version == 4 && m.data.iter().any(|x| x.comp == 1 && x.bytes.len() > x.split as usize + 1), "multi_stored_blocks")
+        .class_if(m.items.is_empty(), "no_items")
+        .class_if(m.items.iter().any(|x| x.data.is_empty()), "empty_item")
+        .class_if(want_types.iter().any(|&x| x >= 0x8000), "type_id_high_bit")
+        .class_if(c.open_mode == 1, "open_proc_fd")
+        .class_if(c.open_mode == 2, "open_dev_shm_path"))
+}
+
+// ---------------------------------------------------------------------------
+// Section df_single_field: every field x every boundary value, with and without repaired size fields
+
+fn boundary_values(orig: i32, ext: &[i64]) -> Vec<i32> {
+    let mut v: Vec<i64> = vec![
+        0, 1, -1, 2, 3, 4, -4, 5, 7, 8, 12, 0xffff, 0x10000, 0x10001, 0x7fff_0000, -65536,
+        i32::MIN as i64, i32::MIN as i64 + 1, i32::MIN as i64 + 4, i32::MAX as i64, i32::MAX as i64 - 1,
+        i32::MAX as i64 - 3, i32::MAX as i64 - 4,
+    ];
+    for d in [-8i64, -4, -3, -2, -1, 1, 2, 3, 4, 8] {
+        v.push(orig as i64 + d);
+    }
+    for &e in ext {
+        for d in [-1i64, 0, 1, 4] {
+            v.push(e + d);
+        }
+    }
+    let mut v: Vec<i32> = v
+        .into_iter()
+        .filter(|&x| x >= i32::MIN as i64 && x <= i32::MAX as i64 && x != orig as i64)
+        .map(|x| x as i32)
+        .collect();
+    v.sort();
+    v.dedup();
+    v
+}
+
+struct EnumStats {
+    files: u64,
+    accepted: u64,
+    skipped_known: u64,
+}
+
+fn run_file(bytes: &[u8], as_map: u8, known: Known, t: &mut Tally, st: &mut EnumStats, what: impl Fn() -> String) -> Result<(), String> {
+    st.files += 1;
+    match check_total(bytes, 0, as_map, known, t) {
+        Ok(Verdict::Accepted) => st.accepted += 1,
+        Ok(Verdict::SkippedKnown) => st.skipped_known += 1,
+        Ok(_) => {}
+        Err(e) => return Err(format!("{}: {} [file {}]", what(), e, hex_short(bytes))),
+    }
+    Ok(())
+}
+
+fn hex_short(b: &[u8]) -> String {
+    if b.len() <= 400 {
+        crate::util::hex(b)
+    } else {
+        format!("{}.. ({} bytes)", crate::util::hex(&b[..400]), b.len())
+    }
+}
+
+static FILES: std::sync::atomic::AtomicU64 = std::sync::atomic::AtomicU64::new(0);
+static ACCEPTED: std::sync::atomic::AtomicU64 = std::sync::atomic::AtomicU64::new(0);
+static SKIPPED_KNOWN: std::sync::atomic::AtomicU64 = std::sync::atomic::AtomicU64::new(0);
+
+fn finish_enum(t: Tally, st: &EnumStats) {
+    use std::sync::atomic::Ordering::Relaxed;
+    FILES.fetch_add(st.files, Relaxed);
+    ACCEPTED.fetch_add(st.accepted, Relaxed);
+    SKIPPED_KNOWN.fetch_add(st.skipped_known, Relaxed);
+    merge_tally(t);
+}
+
+fn check_single_field(m: &Model, known: Known) -> PResult {
+    let m = m.normalized();
+    let img = Image::build(&m, &blocks_of(&m));
+    let ext = img.extents();
+    let mut t = Tally::new();
+    let mut st = EnumStats { files: 0, accepted: 0, skipped_known: 0 };
+    // the magic
+    for k in 0..4 {
+        for x in [0x01u8, 0x20, 0x80, 0xff] {
+            let mut i2 = img.clone();
+            i2.magic[k] ^= x;
+            run_file(&i2.bytes(), 0, known, &mut t, &mut st, || format!("magic byte {} ^ {:#x}", k, x))?;
+        }
+    }
+    for f in img.fields() {
+        let orig = img.get(f);
+        for v in boundary_values(orig, &ext) {
+            if let Field::DataSize(_) = f {
+                if v as i64 > MAX_GEN_UNCOMP {
+                    continue; // allocation size, not the property
+                }
+            }
+            for fix in [false, true] {
+                let mut i2 = img.clone();
+                i2.set(f, v);
+                if fix {
+                    if matches!(f, Field::Hdr(H_SIZE) | Field::Hdr(H_SWAPLEN)) {
+                        continue;
+                    }
+                    if !matches!(f, Field::Hdr(_)) {
+                        continue; // size fields do not depend on the tables
+                    }
+                    i2.fix_size_fields(m.crude);
+                }
+                run_file(&i2.bytes(), 0, known, &mut t, &mut st, || {
+                    format!("{:?} {} -> {}{}", f, orig, v, if fix { " (size/swaplen recomputed)" } else { "" })
+                })?;
+            }
+        }
+    }
+    let acc = st.accepted;
+    finish_enum(t, &st);
+    Ok(Outcome::nt(acc > 0)
+        .class_if(m.version == 3, "v3")
+        .class_if(m.version == 4, "v4")
+        .class_if(acc >= 20, "accepted_20_or_more_corruptions")
+        .class_if(st.skipped_known > 0, "has_known_finding_inputs"))
+}
+
+// ---------------------------------------------------------------------------
+// Section df_truncate: every prefix (and a few extensions)
+
+fn check_truncate(m: &Model, known: Known) -> PResult {
+    let m = m.normalized();
+    let bytes = write_model(&m);
+    let mut t = Tally::new();
+    let mut st = EnumStats { files: 0, accepted: 0, skipped_known: 0 };
+    let n = bytes.len();
+    for cut in 0..n {
+        if n > 1500 && cut > 300 && cut + 300 < n && cut % 7 != 0 {
+            continue;
+        }
+        run_file(&bytes[..cut], 0, known, &mut t, &mut st, || format!("truncated to {} of {} bytes", cut, n))?;
+    }
+    for extra in [1usize, 3, 4, 100] {
+        let mut b = bytes.clone();
+        b.extend(std::iter::repeat(0x5a).take(extra));
+        run_file(&b, 0, known, &mut t, &mut st, || format!("{} bytes appended", extra))?;
+    }
+    let acc = st.accepted;
+    finish_enum(t, &st);
+    Ok(Outcome::nt(n > 36 + 12 + 4 + 8).class_if(acc > 4, "accepted_a_truncation").class_if(n > 1500, "sampled_positions"))
+}
+
+// ---------------------------------------------------------------------------
+// Section df_multi: structural multi-field mutations
+
+#[derive(Clone, Copy, Debug, Hash, PartialEq, Eq, Serialize, Deserialize)]
+pub enum Val {
+    Abs(i32),
+    Rel(i8),
+    Ext(u8, i8),
+}
+
+#[derive(Clone, Debug, Hash, PartialEq, Eq, Serialize, Deserialize)]
+pub enum Mut {
+    Hdr { k: u8, val: Val },
+    Type { i: u16, c: u8, val: Val },
+    ItemOff { i: u16, val: Val },
+    DataOff { i: u16, val: Val },
+    DataSize { i: u16, val: Val },
+    ItemHdr { i: u16, c: u8, val: Val },
+    /// size field of item i += delta, offsets of the following items follow; with `j` the size of
+    /// item j is reduced by the same amount (the item area keeps its length)
+    ResizeItem { i: u16, delta: i8, j: Option<u16> },
+    SwapTypes { a: u16, b: u16 },
+    DupType { i: u16 },
+    DropType { i: u16 },
+    RetypeItem { i: u16, t: u16 },
+    SwapItemOffsets { a: u16, b: u16 },
+    SwapDataOffsets { a: u16, b: u16 },
+    DataFlip { pos: u16, xor: u8 },
+    /// remove `n` bytes from the end of stored block i, offsets and size_data follow
+    DataCut { i: u16, n: u8 },
+    DataInsert { i: u16, bytes: Vec<u8> },
+    DropItemOffset { i: u16 },
+    DropDataOffset { i: u16 },
+    Truncate { n: u16 },
+    Append { bytes: Vec<u8> },
+}
+
+fn val() -> BoxedStrategy<Val> {
+    prop_oneof![
+        3 => prop_oneof![Just(0), Just(1), Just(-1), Just(4), Just(-4), Just(i32::MIN), Just(i32::MAX), Just(i32::MIN + 1), Just(0x10000), Just(0xffff)].prop_map(Val::Abs),
+        1 => any::<i32>().prop_map(Val::Abs),
+        1 => (-40i32..200).prop_map(Val::Abs),
+        3 => (-12i8..=12).prop_map(Val::Rel),
+        3 => (any::<u8>(), -4i8..=4).prop_map(|(k, d)| Val::Ext(k, d)),
+    ]
+    .boxed()
+}
+
+fn mutation() -> BoxedStrategy<Mut> {
+    let i = || any::<u16>();
+    prop_oneof![
+        3 => (3u8..8, val()).prop_map(|(k, val)| Mut::Hdr { k, val }),
+        3 => (i(), 0u8..3, val()).prop_map(|(i, c, val)| Mut::Type { i, c, val }),
+        2 => (i(), val()).prop_map(|(i, val)| Mut::ItemOff { i, val }),
+        3 => (i(), val()).prop_map(|(i, val)| Mut::DataOff { i, val }),
+        3 => (i(), val()).prop_map(|(i, val)| Mut::DataSize { i, val }),
+        3 => (i(), 0u8..2, val()).prop_map(|(i, c, val)| Mut::ItemHdr { i, c, val }),
+        5 => (i(), -12i8..=12, proptest::option::weighted(0.6, i())).prop_map(|(i, delta, j)| Mut::ResizeItem { i, delta, j }),
+        1 => (i(), i()).prop_map(|(a, b)| Mut::SwapTypes { a, b }),
+        1 => i().prop_map(|i| Mut::DupType { i }),
+        1 => i().prop_map(|i| Mut::DropType { i }),
+        2 => (i(), type_id()).prop_map(|(i, t)| Mut::RetypeItem { i, t }),
+        1 => (i(), i()).prop_map(|(a, b)| Mut::SwapItemOffsets { a, b }),
+        2 => (i(), i()).prop_map(|(a, b)| Mut::SwapDataOffsets { a, b }),
+        5 => (i(), 1u8..=255).prop_map(|(pos, xor)| Mut::DataFlip { pos, xor }),
+        3 => (i(), 1u8..12).prop_map(|(i, n)| Mut::DataCut { i, n }),
+        2 => (i(), proptest::collection::vec(any::<u8>(), 1..6)).prop_map(|(i, bytes)| Mut::DataInsert { i, bytes }),
+        1 => i().prop_map(|i| Mut::DropItemOffset { i }),
+        1 => i().prop_map(|i| Mut::DropDataOffset { i }),
+        1 => (1u16..40).prop_map(|n| Mut::Truncate { n }),
+        1 => proptest::collection::vec(any::<u8>(), 1..9).prop_map(|bytes| Mut::Append { bytes }),
+    ]
+    .boxed()
+}
+
+#[derive(Clone, Debug, Hash, Serialize, Deserialize)]
+pub struct MultiCase {
+    pub model: Model,
+    pub muts: Vec<Mut>,
+    /// 0: leave the header as it is, 1: recompute size/swaplen from the header counts,
+    /// 2: recompute counts, area sizes, size and swaplen from the actual parts
+    pub fix: u8,
+    pub as_map: bool,
+}
+
+fn resolve(v: Val, orig: i32, ext: &[i64]) -> i32 {
+    match v {
+        Val::Abs(a) => a,
+        Val::Rel(d) => orig.wrapping_add(d as i32),
+        Val::Ext(k, d) => {
+            let e = ext[(k as usize * ext.len()) >> 8];
+            (e + d as i64).clamp(i32::MIN as i64, i32::MAX as i64) as i32
+        }
+    }
+}
+
+fn apply(img: &mut Image, mu: &Mut, cut: &mut usize) {
+    let ext = img.extents();
+    let setf = |img: &mut Image, f: Field, val: Val| {
+        let o = img.get(f);
+        let mut v = resolve(val, o, &ext);
+        if let Field::DataSize(_) = f {
+            if v as i64 > MAX_GEN_UNCOMP {
+                v = MAX_GEN_UNCOMP as i32;
+            }
+        }
+        img.set(f, v);
+    };
+    let (nt, ni, nd) = (img.types.len(), img.item_pos.len().min(img.item_offsets.len()), img.data_offsets.len());
+    match mu {
+        Mut::Hdr { k, val } => setf(img, Field::Hdr(*k as usize % 8), *val),
+        Mut::Type { i, c, val } if nt > 0 => setf(img, Field::Type(pick(*i, nt), *c as usize % 3), *val),
+        Mut::ItemOff { i, val } if !img.item_offsets.is_empty() => setf(img, Field::ItemOff(pick(*i, img.item_offsets.len())), *val),
+        Mut::DataOff { i, val } if nd > 0 => setf(img, Field::DataOff(pick(*i, nd)), *val),
+        Mut::DataSize { i, val } if img.data_sizes.as_ref().map(|s| !s.is_empty()).unwrap_or(false) => {
+            let n = img.data_sizes.as_ref().unwrap().len();
+            setf(img, Field::DataSize(pick(*i, n)), *val)
+        }
+        Mut::ItemHdr { i, c, val } if !img.item_pos.is_empty() => setf(img, Field::ItemHdr(pick(*i, img.item_pos.len()), *c as usize % 2), *val),
+        Mut::ResizeItem { i, delta, j } if ni > 0 => {
+            let a = pick(*i, ni);
+            let d = *delta as i32;
+            img.set(Field::ItemHdr(a, 1), img.get(Field::ItemHdr(a, 1)).wrapping_add(d));
+            let b = j.map(|j| pick(j, ni));
+            let end = match b {
+                Some(b) if b > a => b,
+                Some(_) => a, // cannot compensate in an earlier item: size only
+                None => ni - 1,
+            };
+            for k in a + 1..=end {
+                img.item_offsets[k] = img.item_offsets[k].wrapping_add(d);
+            }
+            if let Some(b) = b {
+                if b > a {
+                    img.set(Field::ItemHdr(b, 1), img.get(Field::ItemHdr(b, 1)).wrapping_sub(d));
+                    // keep the header of b where the offset table now says it is
+                    let (src, dst) = (img.item_pos[b], img.item_pos[b] as i64 + d as i64);
+                    if dst >= 0 && dst as usize + 8 <= img.items.len() {
+                        let h: [u8; 8] = img.items[src..src + 8].try_into().unwrap();
+                        img.items[dst as usize..dst as usize + 8].copy_from_slice(&h);
+                        img.item_pos[b] = dst as usize;
+                    }
+                }
+            }
+        }
+        Mut::SwapTypes { a, b } if nt > 1 => {
+            let (a, b) = (pick(*a, nt), pick(*b, nt));
+            let (ta, tb) = (img.types[a][0], img.types[b][0]);
+            img.types[a][0] = tb;
+            img.types[b][0] = ta;
+        }
+        Mut::DupType { i } if nt > 0 => {
+            let t = img.types[pick(*i, nt)];
+            img.types.push(t);
+        }
+        Mut::DropType { i } if nt > 0 => {
+            img.types.remove(pick(*i, nt));
+        }
+        Mut::RetypeItem { i, t } if !img.item_pos.is_empty() => {
+            let a = pick(*i, img.item_pos.len());
+            let w = img.get(Field::ItemHdr(a, 0));
+            img.set(Field::ItemHdr(a, 0), ((*t as u32) << 16 | (w as u32 & 0xffff)) as i32);
+        }
+        Mut::SwapItemOffsets { a, b } if img.item_offsets.len() > 1 => {
+            let n = img.item_offsets.len();
+            img.item_offsets.swap(pick(*a, n), pick(*b, n));
+        }
+        Mut::SwapDataOffsets { a, b } if nd > 1 => img.data_offsets.swap(pick(*a, nd), pick(*b, nd)),
+        Mut::DataFlip { pos, xor } if !img.data.is_empty() => {
+            let p = pick(*pos, img.data.len());
+            img.data[p] ^= xor;
+        }
+        Mut::DataCut { i, n } if nd > 0 => {
+            let a = pick(*i, nd);
+            let start = img.data_offsets[a].max(0) as usize;
+            let end = if a + 1 < nd { img.data_offsets[a + 1].max(0) as usize } else { img.data.len() };
+            if start <= end && end <= img.data.len() {
+                let n = (*n as usize).min(end - start);
+                img.data.drain(end - n..end);
+                for k in a + 1..nd {
+                    img.data_offsets[k] = img.data_offsets[k].wrapping_sub(n as i32);
+                }
+            }
+        }
+        Mut::DataInsert { i, bytes } if nd > 0 => {
+            let a = pick(*i, nd);
+            let end = if a + 1 < nd { img.data_offsets[a + 1].max(0) as usize } else { img.data.len() };
+            if end <= img.data.len() {
+                for (k, b) in bytes.iter().enumerate() {
+                    img.data.insert(end + k, *b);
+                }
+                for k in a + 1..nd {
+                    img.data_offsets[k] = img.data_offsets[k].wrapping_add(bytes.len() as i32);
+                }
+            }
+        }
+        Mut::DropItemOffset { i } if !img.item_offsets.is_empty() => {
+            let n = img.item_offsets.len();
+            img.item_offsets.remove(pick(*i, n));
+        }
+        Mut::DropDataOffset { i } if nd > 0 => {
+            img.data_offsets.remove(pick(*i, nd));
+        }
+        Mut::Truncate { n } => *cut += *n as usize,
+        Mut::Append { bytes } => img.trailer.extend_from_slice(bytes),
+        _ => {}
+    }
+}
+
+fn check_multi(c: &MultiCase, known: Known) -> PResult {
+    let m = c.model.grouped();
+    let mut img = Image::build(&m, &blocks_of(&m));
+    let mut cut = 0usize;
+    for mu in &c.muts {
+        apply(&mut img, mu, &mut cut);
+    }
+    match c.fix {
+        1 => drop(img.fix_size_fields(m.crude)),
+        2 => drop(img.fix_all(m.crude)),
+        _ => {}
+    }
+    let mut bytes = img.bytes();
+    let keep = bytes.len().saturating_sub(cut);
+    bytes.truncate(keep);
+    let mut t = Tally::new();
+    let mut st = EnumStats { files: 0, accepted: 0, skipped_known: 0 };
+    let class = known_class(&bytes);
+    run_file(&bytes, if c.as_map { 2 } else { 0 }, known, &mut t, &mut st, || "mutated file".to_string())?;
+    let data_ok = t.get("data:ok").copied().unwrap_or(0);
+    let data_err = t.iter().filter(|(k, _)| k.starts_with("data:") && *k != "data:ok").map(|(_, v)| *v).sum::<u64>();
+    let acc = st.accepted > 0;
+    let unaligned_pad = m.items.iter().any(|i| i.pad % 4 != 0);
+    finish_enum(t, &st);
+    Ok(Outcome::nt(acc && (!c.muts.is_empty() || unaligned_pad))
+        .class_if(acc, "accepted")
+        .class_if(acc && data_err > 0, "accepted_with_failing_data_block")
+        .class_if(acc && data_ok > 0, "accepted_with_readable_data_block")
+        .class_if(class == Some(K_UNALIGNED), "class_unaligned_item_size")
+        .class_if(class == Some(K_START_OVERFLOW), "class_type_start_overflow")
+        .class_if(st.skipped_known > 0, "skipped_known")
+        .class_if(unaligned_pad, "model_has_unaligned_item"))
+}
+
+// ---------------------------------------------------------------------------
+// Section random_bytes
+
+#[derive(Clone, Debug, Hash, Serialize, Deserialize)]
+pub struct RandomCase {
+    /// 0: raw bytes, 1: bytes after a valid magic+version, 2: consistent header + random body
+    pub kind: u8,
+    pub version: u8,
+    pub counts: [u8; 5],
+    pub body: Vec<u8>,
+}
+
+fn random_file(c: &RandomCase) -> Vec<u8> {
+    let mut out = Vec::new();
+    match c.kind {
+        0 => out.extend_from_slice(&c.body),
+        1 => {
+            out.extend_from_slice(b"DATA");
+            out.extend_from_slice(&(if c.version == 3 { 3i32 } else { 4 }).to_le_bytes());
+            out.extend_from_slice(&c.body);
+        }
+        _ => {
+            let v = if c.version == 3 { 3 } else { 4 };
+            let mut hdr = [v, 0, 0, (c.counts[0] % 4) as i32, (c.counts[1] % 6) as i32, (c.counts[2] % 4) as i32, 4 * (c.counts[3] % 24) as i32, (c.counts[4] % 48) as i32];
+            let total = implied_total(&hdr);
+            hdr[H_SIZE] = (total - 16) as i32;
+            hdr[H_SWAPLEN] = hdr[H_SIZE] - hdr[H_SIZE_DATA];
+            out.extend_from_slice(b"DATA");
+            for w in hdr {
+                out.extend_from_slice(&w.to_le_bytes());
+            }
+            // body: small little-endian words, then padded with zeros to the implied size
+            for b in &c.body {
+                let w: i32 = if *b >= 0xf0 { -1 } else { (*b % 24) as i32 };
+                out.extend_from_slice(&w.to_le_bytes());
+            }
+            if out.len() < total as usize {
+                out.resize(total as usize, 0);
+            }
+        }
+    }
+    out
+}
+
+fn check_random(c: &RandomCase, known: Known) -> PResult {
+    let bytes = random_file(c);
+    let mut t = Tally::new();
+    let mut st = EnumStats { files: 0, accepted: 0, skipped_known: 0 };
+    run_file(&bytes, 2, known, &mut t, &mut st, || "random file".to_string())?;
+    let past_header = !t.contains_key("open:WrongMagic") && !t.contains_key("open:UnsupportedVersion") && !t.contains_key("open:TooShortHeader") && !t.contains_key("open:TooShortHeaderVersion") && !t.contains_key("open:MalformedHeader");
+    let acc = st.accepted > 0;
+    finish_enum(t, &st);
+    Ok(Outcome::nt(past_header).class_if(acc, "accepted").class_if(past_header, "got_past_header_checks"))
+}
+
+// ---------------------------------------------------------------------------
+// Map model and writer (doc/map.md)
+
+#[derive(Clone, Debug, Hash, PartialEq, Eq, Serialize, Deserialize)]
+pub struct InfoM {
+    pub author: Option<Vec<u8>>,
+    pub mapversion: Option<Vec<u8>>,
+    pub credits: Option<Vec<u8>>,
+    pub license: Option<Vec<u8>>,
+    /// None: item without the settings field; Some(None): field = -1
+    pub settings: Option<Option<Vec<Vec<u8>>>>,
+}
+
+#[derive(Clone, Debug, Hash, PartialEq, Eq, Serialize, Deserialize)]
+pub struct ImageM {
+    pub version: u8,
+    pub w: u8,
+    pub h: u8,
+    pub external: bool,
+    pub name: Vec<u8>,
+}
+
+#[derive(Clone, Debug, Hash, PartialEq, Eq, Serialize, Deserialize)]
+pub struct EnvM {
+    pub version: u8,
+    pub channels: u8,
+    pub num_points: u8,
+}
+
+#[derive(Clone, Debug, Hash, PartialEq, Eq, Serialize, Deserialize)]
+pub enum LayerM {
+    /// kind 0 tiles, 1 game, 2 tele, 3 speedup, 4 front, 5 switch, 6 tune
+    Tiles { kind: u8, version: u8, w: u8, h: u8, color: [u8; 4], env: Option<u16>, env_off: i32, image: Option<u16>, seed: u8, name: Vec<u8>, detail: bool, ddnet_ext: bool, junk_version: i32 },
+    Quads { version: u8, num: u8, image: Option<u16>, name: Vec<u8>, detail: bool },
+    Sounds { legacy: bool, num: u8, sound: Option<u16>, name: Vec<u8> },
+}
+
+#[derive(Clone, Debug, Hash, PartialEq, Eq, Serialize, Deserialize)]
+pub struct GroupM {
+    pub version: u8,
+    pub offs: [i32; 4],
+    pub clip: Option<[i32; 4]>,
+    pub name: Vec<u8>,
+    pub layers: Vec<LayerM>,
+}
+
+#[derive(Clone, Debug, Hash, PartialEq, Eq, Serialize, Deserialize)]
+pub struct MapM {
+    pub df_version: u8,
+    pub comp: u8,
+    pub info: Option<InfoM>,
+    pub images: Vec<ImageM>,
+    pub envelopes: Vec<EnvM>,
+    pub groups: Vec<GroupM>,
+    /// the game group: index among the groups, dimensions, which physics layers besides "game"
+    pub game_at: u16,
+    pub game_dims: (u8, u8),
+    pub game_version: u8,
+    pub physics: Vec<u8>,
+    pub sounds: u8,
+    pub extra: Vec<MItem>,
+}
+
+#[derive(Clone, Debug, PartialEq)]
+pub enum ExpLayer {
+    Tiles { kind: u8, w: u32, h: u32, data: usize, ext: Option<usize>, image: Option<usize>, env: Option<(usize, i32)>, color: [u8; 4], name: [u8; 12], detail: bool },
+    Quads { num: usize, data: usize, image: Option<usize>, name: [u8; 12], detail: bool },
+    Sounds { num: usize, data: usize, sound: Option<usize>, legacy: bool, name: [u8; 12] },
+}
+
+#[derive(Clone, Debug, PartialEq)]
+pub struct ExpGroup {
+    pub offs: [i32; 4],
+    pub layers: std::ops::Range<usize>,
+    pub clip: Option<[i32; 4]>,
+    pub name: [u8; 12],
+}
+
+#[derive(Clone, Debug, Default)]
+pub struct Expect {
+    pub info: Option<[Option<usize>; 5]>,
+    pub images: Vec<(u32, u32, usize, Option<usize>)>,
+    pub groups: Vec<ExpGroup>,
+    pub layers: Vec<ExpLayer>,
+    pub game_group: usize,
+    pub strings: Vec<(usize, Vec<u8>)>,
+    pub settings: Vec<(usize, Vec<Vec<u8>>)>,
+    pub tiles: Vec<(usize, usize)>, // (data index, bytes per tile)
+    pub starts: [usize; 8],
+}
+
+/// I32String of doc/map.md
+fn i32_string(s: &[u8], words: usize) -> Vec<i32> {
+    let mut raw = vec![0u8; words * 4];
+    for (i, r) in raw.iter_mut().enumerate() {
+        *r = s.get(i).copied().unwrap_or(0).wrapping_add(128);
+    }
+    let n = raw.len();
+    raw[n - 1] = 0;
+    raw.chunks(4).map(|c| i32::from_be_bytes([c[0], c[1], c[2], c[3]])).collect()
+}
+
+fn name12(s: &[u8]) -> [u8; 12] {
+    let mut n = [0u8; 12];
+    for (i, b) in s.iter().take(11).enumerate() {
+        n[i] = *b;
+    }
+    n
+}
+
+fn tile_bytes(seed: u8, n: usize, per: usize) -> Vec<u8> {
+    (0..n * per).map(|i| seed.wrapping_add((i * 7 % 251) as u8)).collect()
+}
+
+fn per_tile(kind: u8) -> usize {
+    match kind {
+        2 | 6 => 2,
+        3 => 6,
+        _ => 4,
+    }
+}
+
+pub fn build_map(mm: &MapM) -> (Model, Expect) {
+    let mut items: Vec<MItem> = Vec::new();
+    let mut data: Vec<MData> = Vec::new();
+    let mut ex = Expect::default();
+    let comp = mm.comp;
+    let add_data = |bytes: Vec<u8>, data: &mut Vec<MData>| -> usize {
+        data.push(MData { bytes, comp: (comp as usize + data.len()) as u8 % 6, split: 5 });
+        data.len() - 1
+    };
+    let cstr = |s: &[u8]| -> Vec<u8> {
+        let mut v: Vec<u8> = s.iter().map(|&b| if b == 0 { b'_' } else { b }).collect();
+        v.push(0);
+        v
+    };
+    let opt = |o: Option<usize>| o.map(|v| v as i32).unwrap_or(-1);
+    // counts first: item indices are absolute
+    let mut groups: Vec<GroupM> = mm.groups.clone();
+    let game_at = if groups.is_empty() { 0 } else { pick(mm.game_at, groups.len() + 1) };
+    let (gw, gh) = (mm.game_dims.0.max(1), mm.game_dims.1.max(1));
+    let gv = if mm.game_version == 2 { 2 } else { 3 };
+    let mut phys: Vec<u8> = Vec::new();
+    for &k in &mm.physics {
+        let k = 2 + k % 5;
+        if !phys.contains(&k) {
+            phys.push(k);
+        }
+    }
+    let mut game_layers: Vec<LayerM> = vec![LayerM::Tiles { kind: 1, version: gv, w: gw, h: gh, color: [255; 4], env: None, env_off: 0, image: None, seed: 1, name: b"Game".to_vec(), detail: false, ddnet_ext: !phys.is_empty(), junk_version: 0 }];
+    for &k in &phys {
+        game_layers.push(LayerM::Tiles { kind: k, version: gv, w: gw, h: gh, color: [255; 4], env: None, env_off: 0, image: None, seed: k, name: b"Phys".to_vec(), detail: false, ddnet_ext: true, junk_version: -7 });
+    }
+    groups.insert(game_at, GroupM { version: 3, offs: [0, 0, 100, 100], clip: None, name: b"Game".to_vec(), layers: game_layers });
+    ex.game_group = game_at;
+    let n_layers: usize = groups.iter().map(|g| g.layers.len()).sum();
+    let has_env = !mm.envelopes.is_empty();
+    let counts = [1, mm.info.is_some() as usize, mm.images.len(), mm.envelopes.len(), groups.len(), n_layers, has_env as usize, mm.sounds as usize];
+    let mut starts = [0usize; 8];
+    for t in 1..8 {
+        starts[t] = starts[t - 1] + counts[t - 1];
+    }
+    ex.starts = starts;
+    let push = |t: u16, id: usize, data: Vec<i32>, items: &mut Vec<MItem>| items.push(MItem { type_id: t, id: id as u16, data, pad: 0 });
+    push(0, 0, vec![1], &mut items);
+    if let Some(info) = &mm.info {
+        let mut idx = [None; 5];
+        for (k, s) in [&info.author, &info.mapversion, &info.credits, &info.license].into_iter().enumerate() {
+            if let Some(s) = s {
+                let d = add_data(cstr(s), &mut data);
+                ex.strings.push((d, cstr(s)[..s.len()].to_vec()));
+                idx[k] = Some(d);
+            }
+        }
+        let mut w = vec![1, opt(idx[0]), opt(idx[1]), opt(idx[2]), opt(idx[3])];
+        if let Some(set) = &info.settings {
+            if let Some(lines) = set {
+                let mut b = Vec::new();
+                let lines: Vec<Vec<u8>> = lines.iter().map(|l| cstr(l)[..l.len()].to_vec()).collect();
+                for l in &lines {
+                    b.extend_from_slice(l);
+                    b.push(0);
+                }
+                if b.is_empty() {
+                    b.push(0); // "with a null byte at the very end"
+                }
+                let d = add_data(b, &mut data);
+                let lines = if lines.is_empty() { vec![Vec::new()] } else { lines };
+                ex.settings.push((d, lines));
+                idx[4] = Some(d);
+            }
+            w.push(opt(idx[4]));
+        }
+        ex.info = Some(idx);
+        push(1, 0, w, &mut items);
+    }
+    for (i, im) in mm.images.iter().enumerate() {
+        let name = add_data(cstr(&im.name), &mut data);
+        let (w, h) = (im.w as usize, im.h as usize);
+        let d = if im.external { None } else { Some(add_data(tile_bytes(i as u8, w * h, 4), &mut data)) };
+        let mut wds = vec![if im.version == 2 { 2 } else { 1 }, w as i32, h as i32, im.external as i32, name as i32, opt(d)];
+        if im.version == 2 {
+            wds.push(1);
+        }
+        ex.images.push((w as u32, h as u32, name, d));
+        push(2, i, wds, &mut items);
+    }
+    let mut point = 0;
+    let env_v3 = has_env && mm.envelopes.iter().all(|e| e.version == 3);
+    for (i, e) in mm.envelopes.iter().enumerate() {
+        let v = e.version.clamp(1, 3) as i32;
+        let mut w = vec![v, [1, 3, 4][e.channels as usize % 3], point, e.num_points as i32];
+        w.extend(i32_string(b"env", 8));
+        if v >= 2 {
+            w.push(0);
+        }
+        point += e.num_points as i32;
+        push(3, i, w, &mut items);
+    }
+    let mut layer_items: Vec<Vec<i32>> = Vec::new();
+    let mut start_layer = 0usize;
+    for (gi, g) in groups.iter().enumerate() {
+        let v = g.version.clamp(1, 3) as i32;
+        let mut w = vec![v, g.offs[0], g.offs[1], g.offs[2], g.offs[3], start_layer as i32, g.layers.len() as i32];
+        if v >= 2 {
+            match g.clip {
+                Some(c) => w.extend_from_slice(&[1, c[0], c[1], c[2], c[3]]),
+                None => w.extend_from_slice(&[0, 3, 4, 5, 6]),
+            }
+        }
+        if v >= 3 {
+            w.extend(i32_string(&g.name, 3));
+        }
+        ex.groups.push(ExpGroup {
+            offs: g.offs,
+            layers: starts[5] + start_layer..starts[5] + start_layer + g.layers.len(),
+            clip: if v >= 2 { g.clip } else { None },
+            name: if v >= 3 { name12(&g.name) } else { [0; 12] },
+        });
+        push(4, gi, w, &mut items);
+        for l in &g.layers {
+            match l {
+                LayerM::Tiles { kind, version, w, h, color, env, env_off, image, seed, name, detail, ddnet_ext, junk_version } => {
+                    let (w, h) = ((*w).max(1) as usize, (*h).max(1) as usize);
+                    let v = if *version == 2 { 2 } else { 3 };
+                    let image = image.and_then(|i| if mm.images.is_empty() { None } else { Some(pick(i, mm.images.len())) });
+                    let env = env.and_then(|i| if mm.envelopes.is_empty() { None } else { Some(pick(i, mm.envelopes.len())) });
+                    // vanilla-compatible tiles (type Tile); for special layers they are zeroes
+                    let plain = *kind <= 1;
+                    let main = add_data(if plain { tile_bytes(*seed, w * h, 4) } else { vec![0; w * h * 4] }, &mut data);
+                    ex.tiles.push((main, 4));
+                    let ext = if plain {
+                        None
+                    } else {
+                        let d = add_data(tile_bytes(*seed, w * h, per_tile(*kind)), &mut data);
+                        ex.tiles.push((d, per_tile(*kind)));
+                        Some(d)
+                    };
+                    let tflags = [0, 1, 2, 4, 8, 16, 32][*kind as usize];
+                    let mut wds = vec![*junk_version, 2, *detail as i32, v, w as i32, h as i32, tflags, color[0] as i32, color[1] as i32, color[2] as i32, color[3] as i32, opt(env), *env_off, opt(image), main as i32];
+                    if v >= 3 {
+                        wds.extend(i32_string(name, 3));
+                    }
+                    if *ddnet_ext || ext.is_some() {
+                        for k in 2..=6u8 {
+                            wds.push(if k == *kind { opt(ext) } else { -1 });
+                        }
+                    }
+                    ex.layers.push(ExpLayer::Tiles {
+                        kind: *kind, w: w as u32, h: h as u32, data: main, ext,
+                        image: image.map(|i| starts[2] + i),
+                        env: env.map(|i| (starts[3] + i, *env_off)),
+                        color: *color,
+                        name: if v >= 3 { name12(name) } else { [0; 12] },
+                        detail: *detail,
+                    });
+                    layer_items.push(wds);
+                }
+                LayerM::Quads { version, num, image, name, detail } => {
+                    let v = if *version == 1 { 1 } else { 2 };
+                    let image = image.and_then(|i| if mm.images.is_empty() { None } else { Some(pick(i, mm.images.len())) });
+                    let d = add_data(tile_bytes(*num, *num as usize, 152), &mut data);
+                    let mut wds = vec![0x55aa, 3, *detail as i32, v, *num as i32, d as i32, opt(image)];
+                    if v >= 2 {
+                        wds.extend(i32_string(name, 3));
+                    }
+                    ex.layers.push(ExpLayer::Quads { num: *num as usize, data: d, image: image.map(|i| starts[2] + i), name: if v >= 2 { name12(name) } else { [0; 12] }, detail: *detail });
+                    layer_items.push(wds);
+                }
+                LayerM::Sounds { legacy, num, sound, name } => {
+                    let sound = sound.and_then(|i| if mm.sounds == 0 { None } else { Some(pick(i, mm.sounds as usize)) });
+                    let d = add_data(tile_bytes(*num, *num as usize, if *legacy { 36 } else { 52 }), &mut data);
+                    let mut wds = vec![0, if *legacy { 9 } else { 10 }, 0, if *legacy { 1 } else { 2 }, *num as i32, d as i32, opt(sound)];
+                    wds.extend(i32_string(name, 3));
+                    ex.layers.push(ExpLayer::Sounds { num: *num as usize, data: d, sound: sound.map(|i| starts[7] + i), legacy: *legacy, name: name12(name) });
+                    layer_items.push(wds);
+                }
+            }
+        }
+        start_layer += g.layers.len();
+    }
+    for (i, w) in layer_items.into_iter().enumerate() {
+        push(5, i, w, &mut items);
+    }
+    if has_env {
+        let per = if env_v3 { 22 } else { 6 };
+        push(6, 0, (0..point as usize * per).map(|i| i as i32).collect(), &mut items);
+    }
+    for i in 0..mm.sounds as usize {
+        let name = add_data(cstr(b"snd"), &mut data);
+        let d = add_data(tile_bytes(i as u8, 9, 1), &mut data);
+        push(7, i, vec![1, 0, name as i32, d as i32, 9], &mut items);
+    }
+    for e in &mm.extra {
+        let mut e = e.clone();
+        e.type_id = e.type_id.max(8);
+        items.push(e);
+    }
+    let model = Model { version: mm.df_version, crude: false, reversed_magic: false, items, data }.normalized();
+    (model, ex)
+}
+
+fn short_name() -> BoxedStrategy<Vec<u8>> {
+    proptest::collection::vec(prop_oneof![4 => 0x20u8..0x7f, 1 => 0x80u8..=0xff], 0..=11).boxed()
+}
+
+fn layer_m() -> BoxedStrategy<LayerM> {
+    let idx = || proptest::option::weighted(0.5, any::<u16>());
+    prop_oneof![
+        4 => ((2u8..=3, 1u8..5, 1u8..5, any::<[u8; 4]>(), idx(), -3i32..3), (idx(), any::<u8>(), short_name(), any::<bool>(), any::<bool>(), word()))
+            .prop_map(|((version, w, h, color, env, env_off), (image, seed, name, detail, ddnet_ext, junk_version))| LayerM::Tiles { kind: 0, version, w, h, color, env, env_off, image, seed, name, detail, ddnet_ext, junk_version }),
+        2 => (1u8..=2, 0u8..3, idx(), short_name(), any::<bool>()).prop_map(|(version, num, image, name, detail)| LayerM::Quads { version, num, image, name, detail }),
+        1 => (any::<bool>(), 0u8..3, idx(), short_name()).prop_map(|(legacy, num, sound, name)| LayerM::Sounds { legacy, num, sound, name }),
+    ]
+    .boxed()
+}
+
+fn map_m(small: bool) -> BoxedStrategy<MapM> {
+    let text = || proptest::option::weighted(0.5, proptest::collection::vec(0x20u8..0x7f, 0..12));
+    let info = proptest::option::weighted(
+        0.8,
+        (text(), text(), text(), text(), proptest::option::weighted(0.7, proptest::option::weighted(0.7, proptest::collection::vec(proptest::collection::vec(0x20u8..0x7f, 0..10), 0..4))))
+            .prop_map(|(author, mapversion, credits, license, settings)| InfoM { author, mapversion, credits, license, settings }),
+    );
+    let image = (1u8..=2, 0u8..4, 0u8..4, any::<bool>(), proptest::collection::vec(prop_oneof![8 => 0x61u8..0x7b, 1 => Just(b'/'), 1 => Just(b'\\')], 0..8))
+        .prop_map(|(version, w, h, external, name)| ImageM { version, w, h, external, name });
+    let env = (1u8..=3, 0u8..3, 0u8..4).prop_map(|(version, channels, num_points)| EnvM { version, channels, num_points });
+    let group = (1u8..=3, [word(), word(), word(), word()], proptest::option::weighted(0.4, [word(), word(), word(), word()]), short_name(), proptest::collection::vec(layer_m(), 0..if small { 3 } else { 5 }))
+        .prop_map(|(version, offs, clip, name, layers)| GroupM { version, offs, clip, name, layers });
+    let n = if small { 2 } else { 4 };
+    (
+        (prop_oneof![Just(3u8), Just(4u8)], 0u8..6, info, proptest::collection::vec(image, 0..n), proptest::collection::vec(env, 0..n)),
+        (proptest::collection::vec(group, 0..n), any::<u16>(), (1u8..5, 1u8..5), 2u8..=3, proptest::collection::vec(0u8..5, 0..6), 0u8..3, proptest::collection::vec(item(4, false), 0..3)),
+    )
+        .prop_map(|((df_version, comp, info, images, envelopes), (groups, game_at, game_dims, game_version, physics, sounds, extra))| MapM {
+            df_version, comp, info, images, envelopes, groups, game_at, game_dims, game_version, physics, sounds, extra,
+        })
+        .boxed()
+}
+
+// ---------------------------------------------------------------------------
+// Section map_wellformed
+
+fn merr<T, E: std::fmt::Debug>(what: &str, r: Result<T, E>) -> Result<T, String> {
+    r.map_err(|e| format!("{} failed on a well-formed map: {:?}", what, e))
+}
+
+fn check_map_wellformed(mm: &MapM) -> PResult {
+    use map::reader::{LayerTilemapType as T, LayerType};
+    let (model, ex) = build_map(mm);
+    let bytes = write_model(&model);
+    let pre = preparse(&bytes);
+    let mut t = Tally::new();
+    set_fuel(4_000_000);
+    let r = merr("open", guard(|| open_df(&bytes, 0)).map_err(|p| p.to_string())?)?;
+    // totality of the complete traversal first
+    let mut m = guard(|| traverse_map(r, &pre, true, &mut t)).map_err(|p| format!("map traversal: {}", p))?;
+    unlimited_fuel();
+    // read-back against doc/map.md
+    ensure_eq!(merr("version", m.version())?, 1, "version()");
+    merr("check_version", m.check_version())?;
+    match (&ex.info, m.info()) {
+        (None, Err(map::format::Error::MissingInfo)) => {}
+        (None, other) => return Err(format!("info() without an info item: {:?}", other.map(|_| ()))),
+        (Some(idx), got) => {
+            let got = merr("info", got)?;
+            ensure_eq!([got.author, got.version, got.credits, got.license, got.settings], *idx, "info() indices");
+        }
+    }
+    for (d, want) in &ex.strings {
+        ensure_eq!(&merr("string", m.string(*d))?, want, "string({})", d);
+    }
+    for (d, want) in &ex.settings {
+        let s = merr("settings", m.settings(*d))?;
+        let got: Vec<Vec<u8>> = s.iter().map(|l| l.to_vec()).collect();
+        ensure_eq!(&got, want, "settings({}) lines", d);
+    }
+    let images = m.reader.item_type_indices(map::format::MAP_ITEMTYPE_IMAGE);
+    ensure_eq!(images.len(), ex.images.len(), "number of image items");
+    for (k, i) in images.enumerate() {
+        let img = merr("image", m.image(i))?;
+        ensure_eq!((img.width, img.height, img.name, img.data), ex.images[k], "image({})", i);
+        let want_name = &model.data[img.name].bytes;
+        let legal = !want_name[..want_name.len() - 1].iter().any(|&b| b == b'/' || b == b'\\');
+        match m.image_name(img.name) {
+            Ok(n) => {
+                ensure!(legal, "image_name accepted a name with a path separator");
+                ensure_eq!(&n[..], &want_name[..want_name.len() - 1], "image_name({})", img.name);
+            }
+            Err(e) => ensure!(!legal, "image_name({}) failed: {:?}", img.name, e),
+        }
+        if let Some(d) = img.data {
+            ensure_eq!(merr("image_data", m.image_data(d))?, model.data[d].bytes, "image_data({})", d);
+        }
+    }
+    let gi = m.group_indices();
+    ensure_eq!(gi.clone(), ex.starts[4]..ex.starts[4] + ex.groups.len(), "group_indices()");
+    for (k, g) in gi.enumerate() {
+        let got = merr("group", m.group(g))?;
+        let want = &ex.groups[k];
+        ensure_eq!([got.offset_x, got.offset_y, got.parallax_x, got.parallax_y], want.offs, "group({}) offsets/parallax", g);
+        ensure_eq!(got.layer_indices, want.layers, "group({}) layer_indices", g);
+        ensure_eq!(got.clipping.map(|c| [c.x, c.y, c.width, c.height]), want.clip, "group({}) clipping", g);
+        ensure_eq!(got.name, want.name, "group({}) name", g);
+        for l in want.layers.clone() {
+            let layer = merr("layer", m.layer(l))?;
+            match (&ex.layers[l - ex.starts[5]], layer.t) {
+                (ExpLayer::Tiles { kind, w, h, data, ext, image, env, color, name, detail }, LayerType::Tilemap(tm)) => {
+                    ensure_eq!((tm.width, tm.height, tm.name, layer.detail), (*w, *h, *name, *detail), "layer({}) tilemap header", l);
+                    let got = match tm.type_ {
+                        T::Normal(n) => {
+                            ensure_eq!((n.image, n.color_env_and_offset, [n.color.red, n.color.green, n.color.blue, n.color.alpha]), (*image, *env, *color), "layer({}) tiles attributes", l);
+                            (0, n.data, None)
+                        }
+                        T::Game(d) => (1, d, None),
+                        T::RaceTeleport(d, z) => (2, z, Some(d)),
+                        T::RaceSpeedup(d, z) => (3, z, Some(d)),
+                        T::DdraceFront(d, z) => (4, z, Some(d)),
+                        T::DdraceSwitch(d, z) => (5, z, Some(d)),
+                        T::DdraceTune(d, z) => (6, z, Some(d)),
+                    };
+                    ensure_eq!(got, (*kind, *data, *ext), "layer({}) kind and data indices", l);
+                    let tiles = merr("layer_tiles", m.layer_tiles(tm.tiles(*data)))?;
+                    ensure_eq!(tiles.dim(), (*h as usize, *w as usize), "layer_tiles({}) shape", data);
+                    let flat: Vec<u8> = tiles.iter().flat_map(|x| [x.index, x.flags, x.skip, x.reserved]).collect();
+                    ensure_eq!(flat, model.data[*data].bytes, "layer_tiles({}) contents", data);
+                    if let Some(e) = ext {
+                        let want = &model.data[*e].bytes;
+                        let flat: Vec<u8> = match kind {
+                            2 => merr("tele_layer_tiles", m.tele_layer_tiles(tm.tiles(*e)))?.iter().flat_map(|x| [x.number, x.index]).collect(),
+                            3 => merr("speedup_layer_tiles", m.speedup_layer_tiles(tm.tiles(*e)))?.iter().flat_map(|x| { let a = x.angle.get().to_le_bytes(); [x.force, x.max_speed, x.index, x.padding, a[0], a[1]] }).collect(),
+                            4 => merr("layer_tiles(front)", m.layer_tiles(tm.tiles(*e)))?.iter().flat_map(|x| [x.index, x.flags, x.skip, x.reserved]).collect(),
+                            5 => merr("switch_layer_tiles", m.switch_layer_tiles(tm.tiles(*e)))?.iter().flat_map(|x| [x.number, x.index, x.flags, x.delay]).collect(),
+                            _ => merr("tune_layer_tiles", m.tune_layer_tiles(tm.tiles(*e)))?.iter().flat_map(|x| [x.number, x.index]).collect(),
+                        };
+                        ensure_eq!(&flat, want, "special tiles of layer {} (kind {})", l, kind);
+                    }
+                }
+                (ExpLayer::Quads { num, data, image, name, detail }, LayerType::Quads(q)) => {
+                    ensure_eq!((q.num_quads, q.data, q.image, q.name, layer.detail), (*num, *data, *image, *name, *detail), "layer({}) quads", l);
+                }
+                (ExpLayer::Sounds { num, data, sound, legacy, name }, LayerType::DdraceSounds(s)) => {
+                    ensure_eq!((s.num_sources, s.data, s.sound, s.legacy, s.name), (*num, *data, *sound, *legacy, *name), "layer({}) sounds", l);
+                }
+                (want, _) => return Err(format!("layer({}) has the wrong kind, stored {:?}", l, want)),
+            }
+        }
+    }
+    let gl = merr("game_layers", m.game_layers())?;
+    let want_g = &ex.groups[ex.game_group];
+    ensure_eq!(gl.group.layer_indices, want_g.layers, "game_layers().group");
+    let first = want_g.layers.start - ex.starts[5];
+    let mut want = [None; 7];
+    let mut dims = (0, 0);
+    for l in &ex.layers[first..first + want_g.layers.len()] {
+        if let ExpLayer::Tiles { kind, data, ext, w, h, .. } = l {
+            if *kind >= 1 {
+                want[*kind as usize] = Some(ext.unwrap_or(*data));
+                dims = (*w, *h);
+            }
+        }
+    }
+    ensure_eq!((gl.width, gl.height), dims, "game_layers() dimensions");
+    ensure_eq!([None, Some(gl.game_raw), gl.teleport_raw, gl.speedup_raw, gl.front_raw, gl.switch_raw, gl.tune_raw], want, "game_layers() data indices");
+    let kinds = ex.layers.iter().filter(|l| matches!(l, ExpLayer::Tiles { kind, .. } if *kind >= 2)).count();
+    merge_tally(t);
+    Ok(Outcome::nt(ex.groups.len() >= 2 && ex.layers.len() >= 3)
+        .class_if(model.version == 4, "v4")
+        .class_if(kinds >= 2, "two_or_more_ddnet_physics_layers")
+        .class_if(ex.info.map(|i| i[4].is_some()).unwrap_or(false), "has_settings")
+        .class_if(!ex.images.is_empty(), "has_images")
+        .class_if(ex.layers.iter().any(|l| matches!(l, ExpLayer::Quads { .. })), "has_quads")
+        .class_if(ex.layers.iter().any(|l| matches!(l, ExpLayer::Sounds { .. })), "has_sounds_layer"))
+}
+
+// ---------------------------------------------------------------------------
+// Section map_single_word: every word of every map item x boundary values; every item length
+
+fn map_values(orig: i32, counts: &[i64]) -> Vec<i32> {
+    let mut v: Vec<i64> = vec![-2, -1, 0, 1, 2, 3, 4, 5, 8, 9, 10, 16, 32, 64, 255, 256, i32::MAX as i64, i32::MIN as i64, i32::MAX as i64 - 1];
+    for &c in counts {
+        v.extend_from_slice(&[c - 1, c, c + 1]);
+    }
+    v.push(orig as i64 + 1);
+    v.push(orig as i64 - 1);
+    let mut v: Vec<i32> = v.into_iter().filter(|&x| x >= i32::MIN as i64 && x <= i32::MAX as i64 && x != orig as i64).map(|x| x as i32).collect();
+    v.sort();
+    v.dedup();
+    v
+}
+
+fn check_map_single_word(mm: &MapM, known: Known) -> PResult {
+    let (model, ex) = build_map(mm);
+    let blocks = blocks_of(&model);
+    let img = Image::build(&model, &blocks);
+    let mut t = Tally::new();
+    let mut st = EnumStats { files: 0, accepted: 0, skipped_known: 0 };
+    let counts: Vec<i64> = vec![model.data.len() as i64, ex.images.len() as i64, mm.envelopes.len() as i64, ex.layers.len() as i64, ex.groups.len() as i64, mm.sounds as i64];
+    // the base map once with the complete cross product of accessors x data indices
+    run_file(&img.bytes(), 2, known, &mut t, &mut st, || "unmodified map".to_string())?;
+    let before = t.clone();
+    for (i, it) in model.items.iter().enumerate() {
+        if it.type_id > 7 {
+            continue;
+        }
+        for w in 0..it.data.len() {
+            for v in map_values(it.data[w], &counts) {
+                let mut i2 = img.clone();
+                i2.set_item_word(i, 2 + w, v);
+                run_file(&i2.bytes(), 1, known, &mut t, &mut st, || format!("item {} (type {}, id {}) word {}: {} -> {}", i, it.type_id, it.id, w, it.data[w], v))?;
+            }
+        }
+        // every shorter length, and a few longer ones
+        for len in (0..it.data.len()).chain(it.data.len() + 1..it.data.len() + 4) {
+            let mut m2 = model.clone();
+            m2.items[i].data.resize(len, -1);
+            run_file(&Image::build(&m2, &blocks).bytes(), 1, known, &mut t, &mut st, || format!("item {} (type {}, id {}) resized from {} to {} words", i, it.type_id, it.id, it.data.len(), len))?;
+        }
+        // the item removed
+        let mut m2 = model.clone();
+        m2.items.remove(i);
+        run_file(&Image::build(&m2, &blocks).bytes(), 1, known, &mut t, &mut st, || format!("item {} (type {}, id {}) removed", i, it.type_id, it.id))?;
+    }
+    let d = |k: &str| t.get(k).copied().unwrap_or(0) - before.get(k).copied().unwrap_or(0);
+    let (layer_err, group_err, gl_ok) = (d("layer:err"), d("group:err"), d("game_layers:ok"));
+    let files = st.files;
+    finish_enum(t, &st);
+    Ok(Outcome::nt(files > 500 && layer_err > 0 && gl_ok > 0)
+        .class_if(layer_err > 0, "some_layer_rejected")
+        .class_if(group_err > 0, "some_group_rejected")
+        .class_if(files > 3000, "over_3000_files"))
+}
+
+fn probe_model(items: Vec<MItem>) -> Model {
+    Model { version: 3, crude: false, reversed_magic: false, items, data: vec![] }
+}
+
+pub fn run(ctx: &Ctx) {
+    ctx.set_rule(
+        "files come from an independent writer (doc/datafile.md, doc/map.md). df_wellformed: one well-formed v3/v4 file per case, \
+         non-trivial = >= 2 item types and a non-empty data block; df_single_field / map_single_word: per case EVERY field (word) of \
+         the base file x every boundary value is written as its own file, non-trivial = at least one corrupted file was accepted by \
+         open and then fully traversed; df_truncate: every prefix; df_multi: 0..4 structural mutations, non-trivial = accepted; \
+         random_bytes: non-trivial = got past the header checks. `files_opened` counts the individual files.",
+    );
+    ctx.assume("the oracle for accepted hostile files is totality only (value or error, no panic, fuel); read-back is demanded of well-formed files only");
+    ctx.assume("well-formed files list item types in ascending type_id order (DESIGN.md C16)");
+    ctx.assume("files whose header implies more than 16 MiB beyond their length, and data blocks declaring more than 16 MiB uncompressed, are not opened/read (resource bound, not the property)");
+    let known = Known::from(ctx);
+    // libz's deflate state (~260 KiB) and the data buffers are allocated and freed once per file;
+    // keep glibc from returning that memory to the kernel every time (page faults dominate otherwise)
+    unsafe {
+        libc::mallopt(libc::M_TRIM_THRESHOLD, 512 << 20);
+        libc::mallopt(libc::M_MMAP_THRESHOLD, 32 << 20);
+    }
+
+    ctx.probe(K_UNALIGNED, || {
+        let it = |id| MItem { type_id: 0, id, data: vec![], pad: 2 };
+        let bytes = write_model(&probe_model(vec![it(0), it(1)]));
+        check_total(&bytes, 0, 0, Known::NONE, &mut Tally::new()).map(|_| ()).map_err(|e| format!("two items of size 2: {} [file {}]", e, crate::util::hex(&bytes)))
+    });
+    ctx.probe(K_START_OVERFLOW, || {
+        let m = probe_model(vec![MItem { type_id: 0, id: 0, data: vec![], pad: 0 }]);
+        let mut img = Image::build(&m, &[]);
+        img.types[0][1] = i32::MIN;
+        let bytes = img.bytes();
+        check_total(&bytes, 0, 0, Known::NONE, &mut Tally::new()).map(|_| ()).map_err(|e| format!("item type with start = i32::MIN: {} [file {}]", e, crate::util::hex(&bytes)))
+    });
+
+    ctx.prop(
+        "df_wellformed",
+        ctx.n(12_000, 400_000),
+        || (model(10, 12, 6, 200, false), prop_oneof![6 => Just(0u8), 2 => Just(1u8), 1 => Just(2u8)]).prop_map(|(model, open_mode)| WellCase { model, open_mode }),
+        check_wellformed,
+    );
+    ctx.prop("df_single_field", ctx.n(400, 8_000), || model(4, 3, 3, 16, false), |m: &Model| check_single_field(m, known));
+    ctx.prop("df_truncate", ctx.n(1_500, 25_000), || model(6, 6, 4, 60, false), |m: &Model| check_truncate(m, known));
+    ctx.prop(
+        "df_multi",
+        ctx.n(150_000, 3_000_000),
+        || {
+            (model(5, 4, 4, 40, true), proptest::collection::vec(mutation(), 0..4), prop_oneof![1 => Just(0u8), 2 => Just(1u8), 4 => Just(2u8)], proptest::bool::weighted(0.2))
+                .prop_map(|(model, muts, fix, as_map)| MultiCase { model, muts, fix, as_map })
+        },
+        |c: &MultiCase| check_multi(c, known),
+    );
+    ctx.prop(
+        "random_bytes",
+        ctx.n(60_000, 2_000_000),
+        || {
+            (0u8..3, prop_oneof![Just(3u8), Just(4u8)], any::<[u8; 5]>(), proptest::collection::vec(any::<u8>(), 0..120))
+                .prop_map(|(kind, version, counts, body)| RandomCase { kind, version, counts, body })
+        },
+        |c: &RandomCase| check_random(c, known),
+    );
+
+    ctx.prop("map_wellformed", ctx.n(6_000, 120_000), || map_m(false), check_map_wellformed);
+    ctx.prop("map_single_word", ctx.n(100, 1_500), || map_m(true), |m: &MapM| check_map_single_word(m, known));
+
+    use std::sync::atomic::Ordering::Relaxed;
+    ctx.extra("files_opened", json!(FILES.load(Relaxed)));
+    ctx.extra("hostile_files_accepted", json!(ACCEPTED.load(Relaxed)));
+    ctx.add_excluded_known(SKIPPED_KNOWN.load(Relaxed));
+    ctx.extra("results", json!(*TALLY.lock().unwrap()));
+    shm_cleanup();
 }
